@@ -188,3 +188,2211 @@ theorem step_frame (ot : Option TaskDefn) :
         (Frame.trans (foldl_frame _ (fun st m => ih st _ _ m) _ _) (finish_frame ..))
 
 end CylcModel.Msg
+
+namespace CylcModel.Msg
+open CylcModel.Sched
+
+/-- the "waiting with a retry lined up" guard -/
+def guard2 (ps : PS) : Bool :=
+  !ps.tr && ps.x.status == .waiting && ps.x.submitNum > 0 && (ps.x.subTry > 0 || ps.x.execTry > 0)
+
+theorem dropped_internal (ps : PS) (sn : Nat) : dropped ps .internal sn = guard2 ps := by
+  simp [dropped, guard2]
+
+theorem dropped_polled (ps : PS) (sn : Nat) : dropped ps .polled sn = guard2 ps := by
+  simp [dropped, guard2]
+
+theorem step_eq (ot : Option TaskDefn) (f : Nat) (q : PS) (flag : Flag) (sn : Nat) (msg : String)
+    (h : dropped q flag sn = false) :
+    step ot (f + 1) q flag sn msg =
+      finish ot ((implied (pre ot q.x msg).1 msg).foldl (fun st m => (step ot f st .internal sn m).1)
+        { q with x := (pre ot q.x msg).1 }) flag msg (pre ot q.x msg).2 := by
+  rw [step]; simp [h]
+
+theorem step_dropped (ot : Option TaskDefn) (f : Nat) (q : PS) (flag : Flag) (sn : Nat) (msg : String)
+    (h : dropped q flag sn = true) : step ot f q flag sn msg = (q, false) := by
+  cases f with
+  | zero => rw [step]
+  | succ f => rw [step]; simp [h]
+
+theorem step_submitted (ot : Option TaskDefn) (f : Nat) (q : PS) (flag : Flag) (sn : Nat)
+    (h : dropped q flag sn = false) :
+    step ot (f + 1) q flag sn "submitted" = finSubmitted ot { q with x := (setDone ot q.x "submitted").1 } flag := by
+  rw [step]
+  simp [h, pre, implied, finish]
+
+/-- the proxy after the implied `submitted` (when it is not complete yet) -/
+def withSub (ot : Option TaskDefn) (q : PS) : PS :=
+  if q.x.isDone "submitted" then q
+  else (finSubmitted ot { q with x := (setDone ot q.x "submitted").1 } .internal).1
+
+theorem guard2_setDone (ot : Option TaskDefn) (q : PS) (m : String) :
+    guard2 { q with x := (setDone ot q.x m).1 } = guard2 q := by
+  unfold guard2 setDone
+  split
+  · rfl
+  · split <;> rfl
+
+theorem step_started (ot : Option TaskDefn) (f : Nat) (q : PS) (flag : Flag) (sn : Nat)
+    (h : dropped q flag sn = false) (hg : guard2 q = false) :
+    step ot (f + 2) q flag sn "started" =
+      finStarted ot (withSub ot { q with x := (setDone ot q.x "started").1 }) flag := by
+  rw [step]
+  simp only [h, pre, implied, finish]
+  simp
+  unfold withSub
+  cases hd : (setDone ot q.x "started").1.isDone "submitted"
+  · have hg' : dropped { q with x := (setDone ot q.x "started").1 } .internal sn = false := by
+      rw [dropped_internal, guard2_setDone]; exact hg
+    simp [hd, step_submitted ot f _ .internal sn hg']
+  · simp [hd]
+end CylcModel.Msg
+
+namespace CylcModel.Msg
+open CylcModel.Sched
+
+/-- the proxy after the implied `started` (when it is not complete yet) -/
+def withSta (ot : Option TaskDefn) (q : PS) : PS :=
+  if q.x.isDone "started" then q
+  else (finStarted ot (withSub ot { q with x := (setDone ot q.x "started").1 }) .internal).1
+
+theorem afterSpawn_tr_or (ot : Option TaskDefn) (ps : PS) : (afterSpawn ot ps).tr = ps.tr ∨ (afterSpawn ot ps).tr = true := by
+  unfold afterSpawn; split
+  · left; rfl
+  · split
+    · right; rfl
+    · left; rfl
+
+theorem guard2_afterSpawn (ot : Option TaskDefn) (ps : PS) (h : guard2 ps = false) : guard2 (afterSpawn ot ps) = false := by
+  unfold guard2 at *
+  rw [afterSpawn_x]
+  rcases afterSpawn_tr_or ot ps with h1 | h1
+  · rw [h1]; exact h
+  · rw [h1]; simp
+
+theorem guard2_withSub (ot : Option TaskDefn) (q : PS) (h : guard2 q = false) : guard2 (withSub ot q) = false := by
+  unfold withSub
+  split
+  · exact h
+  · unfold finSubmitted
+    simp only [show (Flag.internal == Flag.received) = false from rfl, Bool.false_and, Bool.false_eq_true, if_false]
+    apply guard2_afterSpawn
+    split
+    · unfold guard2
+      simp [reset_status_some, reset_status_none]
+    · rw [guard2_setDone]; exact h
+
+theorem isDone_setDone_other (ot : Option TaskDefn) (x : Proxy) (m a : String) (h : a ≠ m) :
+    (setDone ot x m).1.isDone a = x.isDone a := by
+  unfold setDone Proxy.isDone
+  split
+  · rfl
+  · split
+    · rfl
+    · simp [h]
+
+theorem withSub_isDone_started (ot : Option TaskDefn) (q : PS) :
+    (withSub ot q).x.isDone "started" = q.x.isDone "started" := by
+  unfold withSub
+  split
+  · rfl
+  · unfold finSubmitted
+    simp only [show (Flag.internal == Flag.received) = false from rfl, Bool.false_and, Bool.false_eq_true, if_false]
+    rw [afterSpawn_x]
+    split
+    · simp only [Proxy.isDone, reset_done]
+      exact isDone_setDone_other ot q.x "submitted" "started" (by decide)
+    · exact isDone_setDone_other ot q.x "submitted" "started" (by decide)
+
+theorem fold_implied2 (ot : Option TaskDefn) (f : Nat) (q : PS) (sn : Nat) (hg : guard2 q = false) :
+    (["submitted", "started"].filter fun m => !q.x.isDone m).foldl
+        (fun st m => (step ot (f + 2) st .internal sn m).1) q = withSta ot (withSub ot q) := by
+  have hd : dropped q .internal sn = false := by rw [dropped_internal]; exact hg
+  have hg1 : guard2 (withSub ot q) = false := guard2_withSub ot q hg
+  have hd1 : dropped (withSub ot q) .internal sn = false := by rw [dropped_internal]; exact hg1
+  cases h1 : q.x.isDone "submitted" <;> cases h2 : q.x.isDone "started"
+  · -- both missing
+    have e1 : withSub ot q = (finSubmitted ot { q with x := (setDone ot q.x "submitted").1 } .internal).1 := by
+      unfold withSub; simp [h1]
+    simp only [List.filter, h1, h2, Bool.not_false, List.foldl]
+    rw [step_submitted ot (f + 1) q .internal sn hd, ← e1, step_started ot f _ .internal sn hd1 hg1]
+    unfold withSta
+    rw [withSub_isDone_started, h2]; simp
+  · have e1 : withSub ot q = (finSubmitted ot { q with x := (setDone ot q.x "submitted").1 } .internal).1 := by
+      unfold withSub; simp [h1]
+    simp only [List.filter, h1, h2, Bool.not_false, Bool.not_true, List.foldl]
+    rw [step_submitted ot (f + 1) q .internal sn hd, ← e1]
+    unfold withSta
+    rw [withSub_isDone_started, h2]; simp
+  · have e1 : withSub ot q = q := by unfold withSub; simp [h1]
+    simp only [List.filter, h1, h2, Bool.not_false, Bool.not_true, List.foldl]
+    rw [step_started ot f q .internal sn hd hg, e1]
+    unfold withSta
+    simp [h2]
+  · have e1 : withSub ot q = q := by unfold withSub; simp [h1]
+    simp only [List.filter, h1, h2, Bool.not_true, List.foldl]
+    rw [e1]; unfold withSta; simp [h2]
+end CylcModel.Msg
+
+namespace CylcModel.Msg
+open CylcModel.Sched
+
+theorem step_succeeded (ot : Option TaskDefn) (f : Nat) (q : PS) (flag : Flag) (sn : Nat)
+    (h : dropped q flag sn = false) (hg : guard2 q = false) :
+    step ot (f + 3) q flag sn "succeeded" =
+      finSucceeded ot (withSta ot (withSub ot { q with x := (setDone ot q.x "succeeded").1 })) := by
+  rw [step_eq ot (f + 2) q flag sn "succeeded" h]
+  have hg1 : guard2 { q with x := (setDone ot q.x "succeeded").1 } = false := by rw [guard2_setDone]; exact hg
+  have := fold_implied2 ot f { q with x := (setDone ot q.x "succeeded").1 } sn hg1
+  simp only [pre, implied, finish] at this ⊢
+  simp at this ⊢
+  rw [this]
+
+theorem step_failed (ot : Option TaskDefn) (f : Nat) (q : PS) (flag : Flag) (sn : Nat)
+    (h : dropped q flag sn = false) (hg : guard2 q = false) :
+    step ot (f + 3) q flag sn "failed" = finFailed ot (withSta ot (withSub ot q)) flag := by
+  rw [step_eq ot (f + 2) q flag sn "failed" h]
+  have := fold_implied2 ot f q sn hg
+  simp only [pre, implied, finish] at this ⊢
+  simp at this ⊢
+  rw [this]
+
+theorem step_subfailed (ot : Option TaskDefn) (f : Nat) (q : PS) (flag : Flag) (sn : Nat)
+    (h : dropped q flag sn = false) :
+    step ot (f + 1) q flag sn "submit-failed" = finSubFailed ot q flag := by
+  rw [step_eq ot f q flag sn "submit-failed" h]
+  simp [pre, implied, finish]
+
+/-- a message that is none of the five job events: at most completes its own output -/
+theorem step_other (ot : Option TaskDefn) (f : Nat) (q : PS) (flag : Flag) (sn : Nat) (msg : String)
+    (h : dropped q flag sn = false)
+    (h1 : msg ≠ "started") (h2 : msg ≠ "succeeded") (h3 : msg ≠ "failed") (h4 : msg ≠ "submit-failed")
+    (h5 : msg ≠ "submitted") :
+    step ot (f + 1) q flag sn msg =
+      (if (setDone ot q.x msg).2 == some true then (afterSpawn ot { q with x := (setDone ot q.x msg).1 }, false)
+       else ({ q with x := (setDone ot q.x msg).1 }, false)) := by
+  rw [step_eq ot f q flag sn msg h]
+  simp [pre, implied, finish, h1, h2, h3, h4, h5]
+end CylcModel.Msg
+
+namespace CylcModel.Msg
+open CylcModel.Sched
+
+theorem mem_setDone (ot : Option TaskDefn) (x : Proxy) (m a : String) :
+    a ∈ (setDone ot x m).1.done ↔ (a ∈ x.done ∨ (a = m ∧ hasOut ot m = true)) := by
+  unfold setDone
+  by_cases h : hasOut ot m = true
+  · simp only [h, Bool.not_true, Bool.false_eq_true, if_false]
+    by_cases hd : x.isDone m = true
+    · simp only [hd, if_true]
+      unfold Proxy.isDone at hd
+      constructor
+      · intro ha; exact Or.inl ha
+      · rintro (ha | ⟨rfl, _⟩)
+        · exact ha
+        · simpa using hd
+    · simp only [hd]
+      simp
+  · simp [h]
+
+theorem setDone_fields (ot : Option TaskDefn) (x : Proxy) (m : String) :
+    (setDone ot x m).1.status = x.status ∧ (setDone ot x m).1.execTry = x.execTry ∧
+    (setDone ot x m).1.subTry = x.subTry ∧ (setDone ot x m).1.submitNum = x.submitNum := by
+  unfold setDone; split
+  · exact ⟨rfl, rfl, rfl, rfl⟩
+  · split <;> exact ⟨rfl, rfl, rfl, rfl⟩
+
+/-- effect of the implied `submitted` -/
+theorem withSub_eff (ot : Option TaskDefn) (q : PS) :
+    (∀ a, a ∈ (withSub ot q).x.done ↔ (a ∈ q.x.done ∨ (a = "submitted" ∧ hasOut ot "submitted" = true))) ∧
+    ((withSub ot q).x.status = q.x.status ∨ (q.x.status = .preparing ∧ (withSub ot q).x.status = .submitted)) ∧
+    (withSub ot q).x.execTry = q.x.execTry ∧ (withSub ot q).x.subTry = q.x.subTry ∧
+    (withSub ot q).x.submitNum = q.x.submitNum := by
+  unfold withSub
+  by_cases hd : q.x.isDone "submitted" = true
+  · simp only [hd, if_true]
+    refine ⟨?_, by simp⟩
+    intro a
+    constructor
+    · intro h; exact Or.inl h
+    · rintro (h | ⟨rfl, _⟩)
+      · exact h
+      · simpa [Proxy.isDone] using hd
+  · simp only [hd]
+    unfold finSubmitted
+    simp only [show (Flag.internal == Flag.received) = false from rfl, Bool.false_and, Bool.false_eq_true, if_false]
+    rw [afterSpawn_x]
+    have hf := setDone_fields ot q.x "submitted"
+    split
+    · rename_i hp
+      simp only [beq_iff_eq] at hp
+      refine ⟨?_, Or.inr ⟨by rw [← hf.1]; exact hp, by simp [reset_status_some, reset_status_none]⟩, ?_, ?_, ?_⟩
+      · intro a; simp only [reset_done]; exact mem_setDone ot q.x "submitted" a
+      · simp [reset_execTry, hf.2.1]
+      · simp [reset_subTry, hf.2.2.1]
+      · simp [reset_submitNum, hf.2.2.2]
+    · exact ⟨fun a => mem_setDone ot q.x "submitted" a, Or.inl hf.1, hf.2.1, hf.2.2.1, hf.2.2.2⟩
+end CylcModel.Msg
+
+namespace CylcModel.Msg
+open CylcModel.Sched
+
+theorem finStarted_internal (ot : Option TaskDefn) (q : PS) :
+    (finStarted ot q .internal).1.x = { (q.x.reset (status := some .running)) with subTry := 0 } := by
+  unfold finStarted
+  simp only [show (Flag.internal == Flag.received) = false from rfl, Bool.false_and, Bool.false_eq_true, if_false]
+  rw [afterSpawn_x]
+
+/-- effect of the implied `started` -/
+theorem withSta_eff (ot : Option TaskDefn) (q : PS) :
+    (∀ a, a ∈ (withSta ot q).x.done ↔ (a ∈ q.x.done ∨ ("started" ∉ q.x.done ∧
+        ((a = "started" ∧ hasOut ot "started" = true) ∨ (a = "submitted" ∧ hasOut ot "submitted" = true))))) ∧
+    (("started" ∈ q.x.done ∧ (withSta ot q).x.status = q.x.status ∧ (withSta ot q).x.subTry = q.x.subTry) ∨
+     ("started" ∉ q.x.done ∧ (withSta ot q).x.status = .running ∧ (withSta ot q).x.subTry = 0)) ∧
+    (withSta ot q).x.execTry = q.x.execTry ∧ (withSta ot q).x.submitNum = q.x.submitNum := by
+  unfold withSta
+  by_cases hd : q.x.isDone "started" = true
+  · have hm : "started" ∈ q.x.done := by simpa [Proxy.isDone] using hd
+    simp only [hd, if_true]
+    refine ⟨fun a => ?_, Or.inl ⟨hm, by simp⟩, by simp⟩
+    constructor
+    · intro h; exact Or.inl h
+    · rintro (h | ⟨h, _⟩)
+      · exact h
+      · exact absurd hm h
+  · have hm : "started" ∉ q.x.done := by simpa [Proxy.isDone] using hd
+    simp only [hd, Bool.false_eq_true, if_false]
+    rw [finStarted_internal]
+    obtain ⟨e1, _, e3, _, e5⟩ := withSub_eff ot { q with x := (setDone ot q.x "started").1 }
+    have hf := setDone_fields ot q.x "started"
+    refine ⟨fun a => ?_, Or.inr ⟨hm, by simp [reset_status_some], rfl⟩, ?_, ?_⟩
+    · simp only [reset_done]
+      rw [e1 a, mem_setDone]
+      constructor
+      · rintro ((h | h) | h)
+        · exact Or.inl h
+        · exact Or.inr ⟨hm, Or.inl h⟩
+        · exact Or.inr ⟨hm, Or.inr h⟩
+      · rintro (h | ⟨_, h | h⟩)
+        · exact Or.inl (Or.inl h)
+        · exact Or.inl (Or.inr h)
+        · exact Or.inr h
+    · simp only [reset_execTry]; rw [e3]; exact hf.2.1
+    · simp only [reset_submitNum]; rw [e5]; exact hf.2.2.2
+end CylcModel.Msg
+
+namespace CylcModel.Msg
+open CylcModel.Sched
+
+/-- status / outputs consistency of a proxy: a job that runs has been submitted and started, and
+succeeded / failed complete imply submitted and started complete -/
+def Good (x : Proxy) : Prop :=
+  ((x.status = .running ∨ x.status = .succeeded ∨ x.status = .failed) → "submitted" ∈ x.done ∧ "started" ∈ x.done) ∧
+  (x.status = .submitted → "submitted" ∈ x.done) ∧
+  (("succeeded" ∈ x.done ∨ "failed" ∈ x.done) → "submitted" ∈ x.done ∧ "started" ∈ x.done)
+
+/-- the task has the standard outputs `submitted` and `started` -/
+def StdOut (ot : Option TaskDefn) : Prop := hasOut ot "submitted" = true ∧ hasOut ot "started" = true
+
+theorem guard2_of_not_dropped (q : PS) (flag : Flag) (sn : Nat) (h : dropped q flag sn = false) : guard2 q = false := by
+  unfold dropped at h; unfold guard2
+  simp only [Bool.or_eq_false_iff] at h
+  exact h.2
+
+theorem good_succeeded (ot : Option TaskDefn) (hs : StdOut ot) (f : Nat) (q : PS) (flag : Flag) (sn : Nat)
+    (hd : dropped q flag sn = false) :
+    Good (step ot (f + 3) q flag sn "succeeded").1.x := by
+  rw [step_succeeded ot f q flag sn hd (guard2_of_not_dropped q flag sn hd)]
+  unfold finSucceeded
+  rw [afterSpawn_x]
+  obtain ⟨e2, _⟩ := withSta_eff ot (withSub ot { q with x := (setDone ot q.x "succeeded").1 })
+  obtain ⟨e1, _⟩ := withSub_eff ot { q with x := (setDone ot q.x "succeeded").1 }
+  unfold Good
+  simp only [reset_done, reset_status_some]
+  have a1 := e2 "submitted"; have a2 := e2 "started"
+  have b1 := e1 "submitted"; have b2 := e1 "started"
+  simp only [hs.1, hs.2] at a1 a2 b1 b2
+  simp at a1 a2 b1 b2
+  grind
+end CylcModel.Msg
+
+namespace CylcModel.Msg
+open CylcModel.Sched
+
+/-! #### what each top-level message does (not dropped, standard outputs present) -/
+
+theorem sum_submitted (ot : Option TaskDefn) (hs : StdOut ot) (f : Nat) (q : PS) (flag : Flag) (sn : Nat)
+    (hd : dropped q flag sn = false) :
+    let r := step ot (f + 1) q flag sn "submitted"
+    (∀ a, a ∈ r.1.x.done ↔ (a ∈ q.x.done ∨ a = "submitted")) ∧
+    ((r.2 = true ∧ flag = .received ∧ q.x.status.rank ≥ Status.submitted.rank ∧ r.1.x.status = q.x.status) ∨
+     (r.2 = false ∧ ¬(flag = .received ∧ q.x.status.rank ≥ Status.submitted.rank) ∧
+      r.1.x.status = (if q.x.status = .preparing then .submitted else q.x.status))) ∧
+    r.1.x.execTry = q.x.execTry ∧ r.1.x.subTry = q.x.subTry := by
+  intro r
+  have hr : r = finSubmitted ot { q with x := (setDone ot q.x "submitted").1 } flag := step_submitted ot f q flag sn hd
+  have hf := setDone_fields ot q.x "submitted"
+  have hm : ∀ a, a ∈ (setDone ot q.x "submitted").1.done ↔ (a ∈ q.x.done ∨ a = "submitted") := by
+    intro a; rw [mem_setDone]; simp [hs.1]
+  rw [hr]
+  unfold finSubmitted
+  split
+  · rename_i hc
+    simp only [Bool.and_eq_true, beq_iff_eq, decide_eq_true_eq, hf.1] at hc
+    exact ⟨hm, Or.inl ⟨rfl, hc.1, hc.2, hf.1⟩, hf.2.1, hf.2.2.1⟩
+  · rename_i hc
+    simp only [Bool.and_eq_true, beq_iff_eq, decide_eq_true_eq, hf.1] at hc
+    simp only
+    rw [afterSpawn_x]
+    by_cases hp : q.x.status = .preparing
+    · simp only [hf.1, hp, beq_self_eq_true, if_true, reset_done, reset_execTry, reset_subTry, reset_status_none,
+        reset_status_some]
+      refine ⟨hm, Or.inr ⟨trivial, ?_, trivial⟩, hf.2.1, hf.2.2.1⟩
+      rw [hp] at hc; exact hc
+    · have : ((setDone ot q.x "submitted").1.status == Status.preparing) = false := by
+        rw [hf.1]; simpa using hp
+      simp only [this, Bool.false_eq_true, if_false, hp]
+      exact ⟨hm, Or.inr ⟨trivial, hc, hf.1⟩, hf.2.1, hf.2.2.1⟩
+end CylcModel.Msg
+
+namespace CylcModel.Msg
+open CylcModel.Sched
+
+theorem sum_started (ot : Option TaskDefn) (hs : StdOut ot) (f : Nat) (q : PS) (flag : Flag) (sn : Nat)
+    (hd : dropped q flag sn = false) :
+    let r := step ot (f + 2) q flag sn "started"
+    (∀ a, a ∈ r.1.x.done ↔ (a ∈ q.x.done ∨ a = "started" ∨ a = "submitted")) ∧
+    (∃ s2, (s2 = q.x.status ∨ (q.x.status = .preparing ∧ s2 = .submitted)) ∧
+      ((r.2 = true ∧ flag = .received ∧ s2.rank > Status.running.rank ∧ r.1.x.status = s2) ∨
+       (r.2 = false ∧ ¬(flag = .received ∧ s2.rank > Status.running.rank) ∧ r.1.x.status = .running))) ∧
+    r.1.x.execTry = q.x.execTry := by
+  intro r
+  have hr : r = finStarted ot (withSub ot { q with x := (setDone ot q.x "started").1 }) flag :=
+    step_started ot f q flag sn hd (guard2_of_not_dropped q flag sn hd)
+  obtain ⟨e1, e2, e3, _, _⟩ := withSub_eff ot { q with x := (setDone ot q.x "started").1 }
+  have hf := setDone_fields ot q.x "started"
+  have hm : ∀ a, a ∈ (withSub ot { q with x := (setDone ot q.x "started").1 }).x.done ↔
+      (a ∈ q.x.done ∨ a = "started" ∨ a = "submitted") := by
+    intro a; rw [e1 a, mem_setDone]; simp [hs.1, hs.2]; grind
+  simp only [hf.1] at e2
+  simp only [hf.2.1] at e3
+  rw [hr]
+  unfold finStarted
+  split
+  · rename_i hc
+    simp only [Bool.and_eq_true, beq_iff_eq, decide_eq_true_eq] at hc
+    exact ⟨hm, ⟨_, e2, Or.inl ⟨rfl, hc.1, hc.2, rfl⟩⟩, e3⟩
+  · rename_i hc
+    simp only [Bool.and_eq_true, beq_iff_eq, decide_eq_true_eq] at hc
+    simp only
+    rw [afterSpawn_x]
+    simp only [reset_done, reset_execTry, reset_status_some]
+    exact ⟨hm, ⟨_, e2, Or.inr ⟨trivial, hc, trivial⟩⟩, e3⟩
+
+theorem sum_succeeded (ot : Option TaskDefn) (hs : StdOut ot) (f : Nat) (q : PS) (flag : Flag) (sn : Nat)
+    (hd : dropped q flag sn = false) :
+    let r := step ot (f + 3) q flag sn "succeeded"
+    (∀ a, a ∈ r.1.x.done ↔ (a ∈ q.x.done ∨ a = "started" ∨ a = "submitted" ∨
+        (a = "succeeded" ∧ hasOut ot "succeeded" = true))) ∧
+    r.2 = false ∧ r.1.x.status = .succeeded ∧ r.1.x.execTry = q.x.execTry := by
+  intro r
+  have hr : r = finSucceeded ot (withSta ot (withSub ot { q with x := (setDone ot q.x "succeeded").1 })) :=
+    step_succeeded ot f q flag sn hd (guard2_of_not_dropped q flag sn hd)
+  obtain ⟨a1, _, a3, _⟩ := withSta_eff ot (withSub ot { q with x := (setDone ot q.x "succeeded").1 })
+  obtain ⟨b1, _, b3, _, _⟩ := withSub_eff ot { q with x := (setDone ot q.x "succeeded").1 }
+  have hf := setDone_fields ot q.x "succeeded"
+  rw [hr]
+  unfold finSucceeded
+  rw [afterSpawn_x]
+  simp only [reset_done, reset_execTry, reset_status_some]
+  refine ⟨?_, trivial, trivial, ?_⟩
+  · intro a
+    rw [a1 a, b1 a, b1 "started", mem_setDone, mem_setDone]
+    simp [hs.1, hs.2]; grind
+  · rw [a3, b3]; exact hf.2.1
+end CylcModel.Msg
+
+namespace CylcModel.Msg
+open CylcModel.Sched
+
+theorem sum_failed (ot : Option TaskDefn) (hs : StdOut ot) (f : Nat) (q : PS) (flag : Flag) (sn : Nat)
+    (hd : dropped q flag sn = false) :
+    let r := step ot (f + 3) q flag sn "failed"
+    ∃ s2, ((("started" ∈ q.x.done) ∧ (s2 = q.x.status ∨ (q.x.status = .preparing ∧ s2 = .submitted))) ∨
+           ("started" ∉ q.x.done ∧ s2 = .running)) ∧
+      ((r.2 = true ∧ flag = .received ∧ s2.rank > Status.failed.rank ∧ r.1.x.status = s2 ∧
+          r.1.x.execTry = q.x.execTry ∧
+          (∀ a, a ∈ r.1.x.done ↔ (a ∈ q.x.done ∨ a = "started" ∨ a = "submitted"))) ∨
+       (r.2 = false ∧ ¬(flag = .received ∧ s2.rank > Status.failed.rank) ∧
+          (q.x.submitNum > 0 ∧ q.x.execTry < execMax ot) ∧ r.1.x.status = .waiting ∧
+          r.1.x.execTry = q.x.execTry + 1 ∧
+          (∀ a, a ∈ r.1.x.done ↔ (a ∈ q.x.done ∨ a = "started" ∨ a = "submitted"))) ∨
+       (r.2 = false ∧ ¬(flag = .received ∧ s2.rank > Status.failed.rank) ∧
+          ¬(q.x.submitNum > 0 ∧ q.x.execTry < execMax ot) ∧ r.1.x.status = .failed ∧
+          r.1.x.execTry = q.x.execTry ∧
+          (∀ a, a ∈ r.1.x.done ↔ (a ∈ q.x.done ∨ a = "started" ∨ a = "submitted" ∨
+            (a = "failed" ∧ hasOut ot "failed" = true ∧ s2 ≠ .failed))))) := by
+  intro r
+  have hr : r = finFailed ot (withSta ot (withSub ot q)) flag :=
+    step_failed ot f q flag sn hd (guard2_of_not_dropped q flag sn hd)
+  obtain ⟨a1, a2, a3, a4⟩ := withSta_eff ot (withSub ot q)
+  obtain ⟨b1, b2, b3, _, b5⟩ := withSub_eff ot q
+  have hm : ∀ a, a ∈ (withSta ot (withSub ot q)).x.done ↔ (a ∈ q.x.done ∨ a = "started" ∨ a = "submitted") := by
+    intro a
+    rw [a1 a, b1 a, b1 "started"]
+    simp [hs.1, hs.2]; grind
+  have hst : "started" ∈ (withSub ot q).x.done ↔ "started" ∈ q.x.done := by rw [b1 "started"]; simp
+  refine ⟨(withSta ot (withSub ot q)).x.status, ?_, ?_⟩
+  · rcases a2 with ⟨h1, h2, _⟩ | ⟨h1, h2, _⟩
+    · left; refine ⟨hst.mp h1, ?_⟩; rw [h2]; exact b2
+    · right; exact ⟨fun h => h1 (hst.mpr h), h2⟩
+  · rw [hr]
+    unfold finFailed
+    split
+    · rename_i hc
+      simp only [Bool.and_eq_true, beq_iff_eq, decide_eq_true_eq] at hc
+      left
+      exact ⟨rfl, hc.1, hc.2, rfl, by rw [a3, b3], hm⟩
+    · rename_i hc
+      simp only [Bool.and_eq_true, beq_iff_eq, decide_eq_true_eq] at hc
+      simp only
+      split
+      · rename_i hr2
+        simp only [Bool.and_eq_true, decide_eq_true_eq, a3, b3, a4, b5] at hr2
+        right; left
+        simp only [reset_done, reset_status_some]
+        exact ⟨trivial, hc, hr2, trivial, by rw [a3, b3], hm⟩
+      · rename_i hr2
+        simp only [Bool.and_eq_true, decide_eq_true_eq, a3, b3, a4, b5] at hr2
+        right; right
+        rw [afterSpawn_x]
+        refine ⟨rfl, hc, hr2, ?_, ?_, ?_⟩
+        · split <;> simp [setDone_fields, reset_status_some]
+        · split <;> simp [setDone_fields, reset_execTry, a3, b3]
+        · intro a
+          split
+          · rename_i hne
+            rw [mem_setDone]
+            simp only [reset_done]
+            rw [hm a]
+            simp only [bne_iff_ne, ne_eq] at hne
+            grind
+          · rename_i hne
+            simp only [reset_done]
+            rw [hm a]
+            simp only [bne_iff_ne, ne_eq, Decidable.not_not] at hne
+            grind
+end CylcModel.Msg
+
+namespace CylcModel.Msg
+open CylcModel.Sched
+
+theorem sum_subfailed (ot : Option TaskDefn) (f : Nat) (q : PS) (flag : Flag) (sn : Nat)
+    (hd : dropped q flag sn = false) :
+    let r := step ot (f + 1) q flag sn "submit-failed"
+    ((r.2 = true ∧ flag = .received ∧ q.x.status.rank > Status.submitFailed.rank ∧ r.1.x.status = q.x.status ∧
+        r.1.x.subTry = q.x.subTry ∧ r.1.x.done = q.x.done) ∨
+     (r.2 = false ∧ ¬(flag = .received ∧ q.x.status.rank > Status.submitFailed.rank) ∧
+        (q.x.submitNum > 0 ∧ q.x.subTry < subMax ot) ∧ r.1.x.status = .waiting ∧
+        r.1.x.subTry = q.x.subTry + 1 ∧ r.1.x.done = q.x.done) ∨
+     (r.2 = false ∧ ¬(flag = .received ∧ q.x.status.rank > Status.submitFailed.rank) ∧
+        ¬(q.x.submitNum > 0 ∧ q.x.subTry < subMax ot) ∧ r.1.x.status = .submitFailed ∧
+        r.1.x.subTry = q.x.subTry ∧
+        (∀ a, a ∈ r.1.x.done ↔ (a ∈ q.x.done ∨
+          (a = "submit-failed" ∧ hasOut ot "submit-failed" = true ∧ q.x.status ≠ .submitFailed))))) ∧
+    r.1.x.execTry = q.x.execTry := by
+  intro r
+  have hr : r = finSubFailed ot q flag := step_subfailed ot f q flag sn hd
+  rw [hr]
+  unfold finSubFailed
+  split
+  · rename_i hc
+    simp only [Bool.and_eq_true, beq_iff_eq, decide_eq_true_eq] at hc
+    exact ⟨Or.inl ⟨rfl, hc.1, hc.2, rfl, rfl, rfl⟩, rfl⟩
+  · rename_i hc
+    simp only [Bool.and_eq_true, beq_iff_eq, decide_eq_true_eq] at hc
+    simp only
+    split
+    · rename_i hr2
+      simp only [Bool.and_eq_true, decide_eq_true_eq] at hr2
+      simp only [reset_done, reset_status_some, reset_execTry]
+      exact ⟨Or.inr (Or.inl ⟨trivial, hc, hr2, trivial, trivial, trivial⟩), trivial⟩
+    · rename_i hr2
+      simp only [Bool.and_eq_true, decide_eq_true_eq] at hr2
+      rw [afterSpawn_x]
+      refine ⟨Or.inr (Or.inr ⟨rfl, hc, hr2, ?_, ?_, ?_⟩), ?_⟩
+      · split <;> simp [setDone_fields, reset_status_some]
+      · split <;> simp [setDone_fields, reset_subTry]
+      · intro a
+        split
+        · rename_i hne
+          rw [mem_setDone]
+          simp only [reset_done, bne_iff_ne, ne_eq] at hne ⊢
+          grind
+        · rename_i hne
+          simp only [reset_done, bne_iff_ne, ne_eq, Decidable.not_not] at hne ⊢
+          grind
+      · split <;> simp [setDone_fields, reset_execTry]
+
+theorem sum_other (ot : Option TaskDefn) (f : Nat) (q : PS) (flag : Flag) (sn : Nat) (msg : String)
+    (hd : dropped q flag sn = false)
+    (h1 : msg ≠ "started") (h2 : msg ≠ "succeeded") (h3 : msg ≠ "failed") (h4 : msg ≠ "submit-failed")
+    (h5 : msg ≠ "submitted") :
+    let r := step ot (f + 1) q flag sn msg
+    (∀ a, a ∈ r.1.x.done ↔ (a ∈ q.x.done ∨ (a = msg ∧ hasOut ot msg = true))) ∧
+    r.2 = false ∧ r.1.x.status = q.x.status ∧ r.1.x.execTry = q.x.execTry ∧ r.1.x.subTry = q.x.subTry := by
+  intro r
+  have hr := step_other ot f q flag sn msg hd h1 h2 h3 h4 h5
+  have hf := setDone_fields ot q.x msg
+  have hr' : r = (if (setDone ot q.x msg).2 == some true then (afterSpawn ot { q with x := (setDone ot q.x msg).1 }, false)
+       else ({ q with x := (setDone ot q.x msg).1 }, false)) := hr
+  rw [hr']
+  split
+  · rw [afterSpawn_x]
+    exact ⟨fun a => mem_setDone ot q.x msg a, rfl, hf.1, hf.2.1, hf.2.2.1⟩
+  · exact ⟨fun a => mem_setDone ot q.x msg a, rfl, hf.1, hf.2.1, hf.2.2.1⟩
+end CylcModel.Msg
+
+namespace CylcModel.Msg
+open CylcModel.Sched
+
+/-! #### the lifecycle relation of the property text -/
+
+/-- forward along waiting → preparing → submitted → running → succeeded | failed, with submit-failed
+reachable from waiting / preparing / submitted and expired from waiting only -/
+def Fwd : Status → Status → Bool
+  | .waiting, _ => true
+  | .preparing, b => b == .preparing || b == .submitted || b == .running || b == .succeeded || b == .failed ||
+      b == .submitFailed
+  | .submitted, b => b == .submitted || b == .running || b == .succeeded || b == .failed || b == .submitFailed
+  | .running, b => b == .running || b == .succeeded || b == .failed
+  | a, b => a == b
+
+/-- forward, or back to waiting from preparing / submitted / running (automatic retry) -/
+def Allowed (a b : Status) : Bool :=
+  Fwd a b || (b == .waiting && (a == .preparing || a == .submitted || a == .running))
+
+/-- the inputs on which cylc-flow by design leaves the lifecycle (each disjunct has a counterexample
+theorem in `Props/C09.lean` and a finding): a polled / internal message believed although it is behind
+the status; a job message after submit-failed or expired; `succeeded` after failed; and (unreachable,
+cf. `Good`) a repeated failure event of a finished task that still has a retry -/
+def Deviant (ot : Option TaskDefn) (flag : Flag) (x : Proxy) (msg : String) : Bool :=
+  (msg == "started" && (x.status == .expired || x.status == .submitFailed ||
+      (flag != .received && (x.status == .failed || x.status == .succeeded)))) ||
+  (msg == "succeeded" && (x.status == .expired || x.status == .submitFailed || x.status == .failed)) ||
+  (msg == "failed" && (x.status == .expired || x.status == .submitFailed ||
+      (flag != .received && x.status == .succeeded) ||
+      (x.status == .failed && x.submitNum > 0 && x.execTry < execMax ot))) ||
+  (msg == "submit-failed" && (x.status == .expired ||
+      (flag != .received && (x.status == .running || x.status == .failed || x.status == .succeeded)) ||
+      (x.status == .submitFailed && x.submitNum > 0 && x.subTry < subMax ot)))
+
+theorem fwd_refl (a : Status) : Fwd a a = true := by cases a <;> rfl
+theorem allowed_refl (a : Status) : Allowed a a = true := by cases a <;> rfl
+
+theorem msg_cases (msg : String) :
+    msg = "started" ∨ msg = "succeeded" ∨ msg = "failed" ∨ msg = "submit-failed" ∨ msg = "submitted" ∨
+    (msg ≠ "started" ∧ msg ≠ "succeeded" ∧ msg ≠ "failed" ∧ msg ≠ "submit-failed" ∧ msg ≠ "submitted") := by
+  by_cases h1 : msg = "started"
+  · exact Or.inl h1
+  by_cases h2 : msg = "succeeded"
+  · exact Or.inr (Or.inl h2)
+  by_cases h3 : msg = "failed"
+  · exact Or.inr (Or.inr (Or.inl h3))
+  by_cases h4 : msg = "submit-failed"
+  · exact Or.inr (Or.inr (Or.inr (Or.inl h4)))
+  by_cases h5 : msg = "submitted"
+  · exact Or.inr (Or.inr (Or.inr (Or.inr (Or.inl h5))))
+  exact Or.inr (Or.inr (Or.inr (Or.inr (Or.inr ⟨h1, h2, h3, h4, h5⟩))))
+
+/-- **status / outputs consistency is preserved by every message** (any flag, stale or not) -/
+theorem good_step (ot : Option TaskDefn) (hs : StdOut ot) (f : Nat) (q : PS) (flag : Flag) (sn : Nat) (msg : String)
+    (hg : Good q.x) : Good (step ot (f + 3) q flag sn msg).1.x := by
+  by_cases hd : dropped q flag sn = true
+  · rw [step_dropped ot _ q flag sn msg hd]; exact hg
+  · simp only [Bool.not_eq_true] at hd
+    unfold Good at hg ⊢
+    rcases msg_cases msg with rfl | rfl | rfl | rfl | rfl | ⟨h1, h2, h3, h4, h5⟩
+    · obtain ⟨e, ⟨s2, hs2, hb⟩, _⟩ := sum_started ot hs (f + 1) q flag sn hd
+      have a1 := e "submitted"; have a2 := e "started"; have a3 := e "succeeded"; have a4 := e "failed"
+      simp at a1 a2 a3 a4
+      grind
+    · obtain ⟨e, _, hst, _⟩ := sum_succeeded ot hs f q flag sn hd
+      have a1 := e "submitted"; have a2 := e "started"; have a3 := e "succeeded"; have a4 := e "failed"
+      simp at a1 a2 a3 a4
+      grind
+    · obtain ⟨s2, hs2, hb⟩ := sum_failed ot hs f q flag sn hd
+      rcases hb with ⟨_, _, _, hst, _, e⟩ | ⟨_, _, _, hst, _, e⟩ | ⟨_, _, _, hst, _, e⟩
+      all_goals
+        have a1 := e "submitted"; have a2 := e "started"; have a3 := e "succeeded"; have a4 := e "failed"
+        simp at a1 a2 a3 a4
+        grind
+    · obtain ⟨hb, _⟩ := sum_subfailed ot (f + 2) q flag sn hd
+      rcases hb with ⟨_, _, _, hst, _, e⟩ | ⟨_, _, _, hst, _, e⟩ | ⟨_, _, _, hst, _, e⟩
+      · rw [hst, e]; exact hg
+      · rw [hst, e]; grind
+      · have a1 := e "submitted"; have a2 := e "started"; have a3 := e "succeeded"; have a4 := e "failed"
+        simp at a1 a2 a3 a4
+        grind
+    · obtain ⟨e, hb, _⟩ := sum_submitted ot hs (f + 2) q flag sn hd
+      have a1 := e "submitted"; have a2 := e "started"; have a3 := e "succeeded"; have a4 := e "failed"
+      simp at a1 a2 a3 a4
+      grind
+    · obtain ⟨e, _, hst, _⟩ := sum_other ot (f + 2) q flag sn msg hd h1 h2 h3 h4 h5
+      have a1 := e "submitted"; have a2 := e "started"; have a3 := e "succeeded"; have a4 := e "failed"
+      simp [Ne.symm h2, Ne.symm h3, Ne.symm h1, Ne.symm h5] at a1 a2 a3 a4
+      grind
+end CylcModel.Msg
+
+namespace CylcModel.Msg
+open CylcModel.Sched
+
+/-- **lifecycle**: a message that is not one of the by-design deviations moves the status forward
+along the lifecycle or returns it to waiting for an automatic retry (the retry counter advances,
+and a retry was left) -/
+theorem lifecycle_step (ot : Option TaskDefn) (hs : StdOut ot) (f : Nat) (q : PS) (flag : Flag) (sn : Nat)
+    (msg : String) (hg : Good q.x) (hdev : Deviant ot flag q.x msg = false) :
+    let r := (step ot (f + 3) q flag sn msg).1
+    Allowed q.x.status r.x.status = true ∧
+    (r.x.status = .waiting → q.x.status ≠ .waiting →
+      ((msg = "failed" ∧ q.x.execTry < execMax ot ∧ r.x.execTry = q.x.execTry + 1) ∨
+       (msg = "submit-failed" ∧ q.x.subTry < subMax ot ∧ r.x.subTry = q.x.subTry + 1))) := by
+  intro r
+  by_cases hd : dropped q flag sn = true
+  · have : r = q := by show (step ot (f + 3) q flag sn msg).1 = q; rw [step_dropped ot _ q flag sn msg hd]
+    rw [this]; exact ⟨allowed_refl _, fun h1 h2 => absurd h1 h2⟩
+  · simp only [Bool.not_eq_true] at hd
+    unfold Good at hg
+    rcases msg_cases msg with rfl | rfl | rfl | rfl | rfl | ⟨h1, h2, h3, h4, h5⟩
+    · obtain ⟨_, ⟨s2, hs2, hb⟩, _⟩ := sum_started ot hs (f + 1) q flag sn hd
+      simp [Deviant] at hdev
+      cases hq : q.x.status <;> cases flag <;> simp_all [Allowed, Fwd, Status.rank, r] <;> grind
+    · obtain ⟨_, _, hst, _⟩ := sum_succeeded ot hs f q flag sn hd
+      simp [Deviant] at hdev
+      cases hq : q.x.status <;> simp_all [Allowed, Fwd, r]
+    · obtain ⟨s2, hs2, hb⟩ := sum_failed ot hs f q flag sn hd
+      simp [Deviant] at hdev
+      rcases hb with ⟨_, _, hrk, hst, he, _⟩ | ⟨_, hnp, hre, hst, he, _⟩ | ⟨_, hnp, hre, hst, he, _⟩
+      · cases hq : q.x.status <;> cases flag <;> simp_all [Allowed, Fwd, Status.rank, r] <;> grind
+      · cases hq : q.x.status <;> cases flag <;> simp_all [Allowed, Fwd, Status.rank, r] <;> grind
+      · cases hq : q.x.status <;> cases flag <;> simp_all [Allowed, Fwd, Status.rank, r] <;> grind
+    · obtain ⟨hb, _⟩ := sum_subfailed ot (f + 2) q flag sn hd
+      simp [Deviant] at hdev
+      rcases hb with ⟨_, _, hrk, hst, he, _⟩ | ⟨_, hnp, hre, hst, he, _⟩ | ⟨_, hnp, hre, hst, he, _⟩
+      · cases hq : q.x.status <;> cases flag <;> simp_all [Allowed, Fwd, Status.rank, r]
+      · cases hq : q.x.status <;> cases flag <;> simp_all [Allowed, Fwd, Status.rank, r] <;> grind
+      · cases hq : q.x.status <;> cases flag <;> simp_all [Allowed, Fwd, Status.rank, r] <;> grind
+    · obtain ⟨_, hb, _⟩ := sum_submitted ot hs (f + 2) q flag sn hd
+      cases hq : q.x.status <;> simp_all [Allowed, Fwd, Status.rank, r] <;> grind
+    · obtain ⟨_, _, hst, _⟩ := sum_other ot (f + 2) q flag sn msg hd h1 h2 h3 h4 h5
+      have : r.x.status = q.x.status := hst
+      rw [this]; exact ⟨allowed_refl _, fun a b => absurd a b⟩
+end CylcModel.Msg
+
+namespace CylcModel.Sched
+open CylcModel.Msg
+
+/-! ### Part B: `processMessage` acts on the addressed proxy as `Msg.step` -/
+
+theorem get?_some_key {s : State} {p : Int} {n : String} {x : Proxy} (h : s.get? p n = some x) :
+    x.pt = p ∧ x.name = n := by
+  unfold State.get? at h
+  have := List.find?_some h
+  simpa using this
+
+theorem find_map_same (l : List Proxy) (p : Int) (n : String) (x y : Proxy)
+    (h : l.find? (fun z => z.pt == p && z.name == n) = some x) (hp : y.pt = p) (hn : y.name = n) :
+    (l.map fun z => if z.pt == y.pt && z.name == y.name then y else z).find? (fun z => z.pt == p && z.name == n)
+      = some y := by
+  induction l with
+  | nil => simp at h
+  | cons a l ih =>
+    simp only [List.map_cons, List.find?_cons]
+    by_cases ha : (a.pt == p && a.name == n) = true
+    · have h1 : (a.pt == y.pt && a.name == y.name) = true := by rw [hp, hn]; exact ha
+      have h2 : (y.pt == p && y.name == n) = true := by simp [hp, hn]
+      simp only [h1, if_true, h2]
+    · simp only [Bool.not_eq_true] at ha
+      have h1 : (a.pt == y.pt && a.name == y.name) = false := by rw [hp, hn]; exact ha
+      simp only [h1, Bool.false_eq_true, if_false, ha]
+      apply ih
+      simpa [List.find?_cons, ha] using h
+
+theorem find_map_ne (l : List Proxy) (p : Int) (n : String) (y : Proxy) (h : ¬ (y.pt = p ∧ y.name = n)) :
+    (l.map fun z => if z.pt == y.pt && z.name == y.name then y else z).find? (fun z => z.pt == p && z.name == n)
+      = l.find? (fun z => z.pt == p && z.name == n) := by
+  have h1 : (y.pt == p && y.name == n) = false := by
+    simp only [Bool.and_eq_false_iff, beq_eq_false_iff_ne]
+    by_cases hp : y.pt = p
+    · right; intro hn; exact h ⟨hp, hn⟩
+    · left; exact hp
+  induction l with
+  | nil => rfl
+  | cons a l ih =>
+    simp only [List.map_cons, List.find?_cons]
+    by_cases ha : (a.pt == y.pt && a.name == y.name) = true
+    · simp only [ha, if_true]
+      simp only [Bool.and_eq_true, beq_iff_eq] at ha
+      have h2 : (a.pt == p && a.name == n) = false := by rw [ha.1, ha.2]; exact h1
+      simp only [h1, h2]
+      exact ih
+    · simp only [ha, Bool.false_eq_true, if_false]
+      split
+      · rfl
+      · exact ih
+
+theorem get?_put_same (s : State) (p : Int) (n : String) (x y : Proxy) (h : s.get? p n = some x)
+    (hp : y.pt = p) (hn : y.name = n) : (s.put y).get? p n = some y :=
+  find_map_same s.pool p n x y h hp hn
+
+theorem get?_put_ne (s : State) (p : Int) (n : String) (y : Proxy) (h : ¬ (y.pt = p ∧ y.name = n)) :
+    (s.put y).get? p n = s.get? p n :=
+  find_map_ne s.pool p n y h
+
+theorem get?_put_none (s : State) (p : Int) (n : String) (y : Proxy) (h : s.get? p n = none) :
+    (s.put y).get? p n = none := by
+  by_cases hk : y.pt = p ∧ y.name = n
+  · unfold State.get? State.put at *
+    simp only
+    rw [List.find?_eq_none] at h ⊢
+    intro z hz
+    obtain ⟨w, hw, rfl⟩ := List.mem_map.mp hz
+    have := h w hw
+    by_cases hc : (w.pt == y.pt && w.name == y.name) = true
+    · rw [hk.1, hk.2] at hc; exact absurd hc this
+    · simp only [hc, Bool.false_eq_true, if_false]; exact this
+  · rw [get?_put_ne s p n y hk]; exact h
+
+/-- no ghost (object removed earlier in this op) shadows the live proxy of (p, n) -/
+def GhostOK (s : State) (p : Int) (n : String) : Prop :=
+  (s.get? p n).isSome → ∀ y ∈ s.ghosts, (y.pt == p && y.name == n) = false
+
+theorem lookup_cases {s : State} {p : Int} {n : String} {x : Proxy} {tr : Bool} (h : lookup s p n = some (x, tr)) :
+    (tr = false ∧ s.get? p n = some x) ∨
+    (tr = true ∧ s.get? p n = none ∧ s.ghosts.find? (fun z => z.pt == p && z.name == n) = some x) := by
+  unfold lookup at h
+  cases hg : s.get? p n with
+  | some x0 =>
+    simp only [hg, Option.some.injEq, Prod.mk.injEq] at h
+    left; exact ⟨h.2.symm, by rw [h.1]⟩
+  | none =>
+    simp only [hg, Option.map_eq_some_iff, Prod.mk.injEq] at h
+    obtain ⟨a, ha, rfl, rfl⟩ := h
+    right; exact ⟨rfl, rfl, ha⟩
+
+theorem lookup_key {s : State} {p : Int} {n : String} {x : Proxy} {tr : Bool} (h : lookup s p n = some (x, tr)) :
+    x.pt = p ∧ x.name = n := by
+  rcases lookup_cases h with ⟨_, hg⟩ | ⟨_, _, hg⟩
+  · exact get?_some_key hg
+  · have := List.find?_some hg
+    simpa using this
+
+theorem lookup_store (s : State) (p : Int) (n : String) (x y : Proxy) (tr : Bool)
+    (h : lookup s p n = some (x, tr)) (hp : y.pt = p) (hn : y.name = n) :
+    lookup (store s y tr) p n = some (y, tr) := by
+  rcases lookup_cases h with ⟨rfl, hg⟩ | ⟨rfl, hg, hf⟩
+  · unfold store lookup
+    simp only [Bool.false_eq_true, if_false]
+    rw [get?_put_same s p n x y hg hp hn]
+  · unfold store lookup
+    simp only [if_true]
+    have : ({ s with ghosts := s.ghosts.map fun z => if z.pt == y.pt && z.name == y.name then y else z } : State).get? p n
+        = none := hg
+    rw [this]
+    simp only
+    rw [find_map_same s.ghosts p n x y hf hp hn]
+    rfl
+
+theorem ghostOK_store (s : State) (p : Int) (n : String) (x y : Proxy) (tr : Bool)
+    (h : lookup s p n = some (x, tr)) (hgo : GhostOK s p n) : GhostOK (store s y tr) p n := by
+  rcases lookup_cases h with ⟨rfl, hg⟩ | ⟨rfl, hg, hf⟩
+  · unfold store GhostOK at *
+    simp only [Bool.false_eq_true, if_false]
+    intro _
+    exact hgo (by rw [hg]; rfl)
+  · unfold store GhostOK
+    simp only [if_true]
+    intro hsome
+    have : ({ s with ghosts := s.ghosts.map fun z => if z.pt == y.pt && z.name == y.name then y else z } : State).get? p n
+        = none := hg
+    rw [this] at hsome
+    simp at hsome
+
+/-- no ghost has the key (p, n) -/
+def NoG (p : Int) (n : String) (s : State) : Prop := ∀ y ∈ s.ghosts, (y.pt == p && y.name == n) = false
+
+theorem get?_add_some (s : State) (p : Int) (n : String) (x y : Proxy) (h : s.get? p n = some x) :
+    (s.add y).get? p n = some x := by
+  unfold State.add
+  split
+  · exact h
+  · unfold State.get? at *
+    simp only [List.find?_append, h, Option.some_or]
+
+theorem ghosts_add (s : State) (y : Proxy) : (s.add y).ghosts = s.ghosts := by
+  unfold State.add; split <;> rfl
+
+theorem ghosts_put (s : State) (y : Proxy) : (s.put y).ghosts = s.ghosts := rfl
+
+theorem get?_spawnAndAdd_some (g : Graph) (s : State) (p : Int) (n : String) (x : Proxy) (nm : String) (q : Int)
+    (h : s.get? p n = some x) : (spawnAndAdd g s nm q).get? p n = some x := by
+  unfold spawnAndAdd
+  split
+  · exact h
+  · split
+    · exact get?_add_some s p n x _ h
+    · exact h
+
+theorem ghosts_spawnAndAdd (g : Graph) (s : State) (nm : String) (q : Int) :
+    (spawnAndAdd g s nm q).ghosts = s.ghosts := by
+  unfold spawnAndAdd
+  split
+  · rfl
+  · split
+    · exact ghosts_add _ _
+    · rfl
+
+theorem get?_spawnNextParentless_some (g : Graph) (s : State) (p : Int) (n : String) (x z : Proxy)
+    (h : s.get? p n = some x) : (spawnNextParentless g s z).get? p n = some x := by
+  unfold spawnNextParentless
+  split
+  · exact h
+  · split
+    · exact get?_spawnAndAdd_some g s p n x _ _ h
+    · exact h
+
+theorem ghosts_spawnNextParentless (g : Graph) (s : State) (z : Proxy) :
+    (spawnNextParentless g s z).ghosts = s.ghosts := by
+  unfold spawnNextParentless
+  split
+  · rfl
+  · split
+    · exact ghosts_spawnAndAdd _ _ _ _
+    · rfl
+
+theorem find?_filter_keep {α : Type} (l : List α) (f q : α → Bool) (h : ∀ a, f a = true → q a = true) :
+    (l.filter q).find? f = l.find? f := by
+  induction l with
+  | nil => rfl
+  | cons a l ih =>
+    by_cases hq : q a = true
+    · simp only [List.filter_cons, hq, if_true, List.find?_cons]
+      split
+      · rfl
+      · exact ih
+    · have hf : f a = false := by
+        cases hfa : f a with
+        | false => rfl
+        | true => exact absurd (h a hfa) hq
+      simp only [List.filter_cons, hq, Bool.false_eq_true, if_false, List.find?_cons, hf]
+      exact ih
+
+/-- removing another proxy keeps the proxy of (p, n) and adds no ghost with that key -/
+theorem remove_keep (g : Graph) (s : State) (p : Int) (n : String) (x z : Proxy)
+    (h : s.get? p n = some x) (hz : ¬ (z.pt = p ∧ z.name = n)) (hng : NoG p n s) :
+    (remove g s z).get? p n = some x ∧ NoG p n (remove g s z) := by
+  unfold remove
+  simp only
+  have h1 : (if (!z.flows.isEmpty && z.runahead) = true then spawnNextParentless g s z else s).get? p n = some x := by
+    split
+    · exact get?_spawnNextParentless_some g s p n x z h
+    · exact h
+  have h2 : (if (!z.flows.isEmpty && z.runahead) = true then spawnNextParentless g s z else s).ghosts = s.ghosts := by
+    split
+    · exact ghosts_spawnNextParentless g s z
+    · rfl
+  generalize (if (!z.flows.isEmpty && z.runahead) = true then spawnNextParentless g s z else s) = s1 at h1 h2
+  constructor
+  · unfold State.get? at *
+    simp only
+    rw [find?_filter_keep]
+    · exact h1
+    · intro a ha
+      simp only [Bool.and_eq_true, beq_iff_eq] at ha
+      simp only [Bool.not_eq_true', Bool.and_eq_false_iff, beq_eq_false_iff_ne]
+      by_cases hp : a.pt = z.pt
+      · right; intro hn; exact hz ⟨by rw [← hp]; exact ha.1, by rw [← hn]; exact ha.2⟩
+      · left; exact hp
+  · unfold NoG at *
+    simp only [h2]
+    intro y hy
+    rcases List.mem_append.mp hy with hy | hy
+    · exact hng y hy
+    · simp only [List.mem_singleton] at hy
+      subst hy
+      simp only [Bool.and_eq_false_iff, beq_eq_false_iff_ne]
+      by_cases hp : y.pt = p
+      · right; intro hn; exact hz ⟨hp, hn⟩
+      · left; exact hp
+
+theorem satisfyMe_pt (x : Proxy) (a : Atom) : (x.satisfyMe a).pt = x.pt := rfl
+theorem satisfyMe_name (x : Proxy) (a : Atom) : (x.satisfyMe a).name = x.name := rfl
+
+/-- one child of `spawn_on_output` leaves the parent's own proxy alone, when the child is not the parent -/
+theorem spawnChild_keep (g : Graph) (p : Int) (n out : String) (x : Proxy) (acc : State × List (Int × String))
+    (c : Child) (hc : c.name = n → (c.pt ≠ p ∧ c.isAbs = false))
+    (h : acc.1.get? p n = some x) (hng : NoG p n acc.1) (hs : ∀ k ∈ acc.2, k ≠ (p, n)) :
+    (spawnChild g p n out acc c).1.get? p n = some x ∧ NoG p n (spawnChild g p n out acc c).1 ∧
+    (∀ k ∈ (spawnChild g p n out acc c).2, k ≠ (p, n)) := by
+  obtain ⟨st, sui⟩ := acc
+  simp only at h hng hs
+  unfold spawnChild
+  simp only
+  have h0 : (if (c.isAbs && !st.absDone.contains ⟨p, n, out⟩) = true then
+      { st with absDone := st.absDone ++ [⟨p, n, out⟩] } else st).get? p n = some x := by
+    split
+    · exact h
+    · exact h
+  have g0 : NoG p n (if (c.isAbs && !st.absDone.contains ⟨p, n, out⟩) = true then
+      { st with absDone := st.absDone ++ [⟨p, n, out⟩] } else st) := by
+    split
+    · exact hng
+    · exact hng
+  generalize (if (c.isAbs && !st.absDone.contains ⟨p, n, out⟩) = true then
+      { st with absDone := st.absDone ++ [⟨p, n, out⟩] } else st) = st0 at h0 g0 ⊢
+  -- the fold over the proxies whose prerequisites are satisfied
+  have hfold : ∀ (ks : List (Int × String)), (∀ k ∈ ks, k ≠ (p, n)) → ∀ (a : State × List (Int × String)),
+      a.1.get? p n = some x → NoG p n a.1 → (∀ k ∈ a.2, k ≠ (p, n)) →
+      (ks.foldl (fun (a : State × List (Int × String)) k =>
+        match a.1.get? k.1 k.2 with
+        | none => a
+        | some z =>
+          let z := z.satisfyMe ⟨p, n, out⟩
+          (a.1.put z, if (z.suicideNow && !a.2.contains k) = true then a.2 ++ [k] else a.2)) a).1.get? p n = some x ∧
+      NoG p n (ks.foldl (fun (a : State × List (Int × String)) k =>
+        match a.1.get? k.1 k.2 with
+        | none => a
+        | some z =>
+          let z := z.satisfyMe ⟨p, n, out⟩
+          (a.1.put z, if (z.suicideNow && !a.2.contains k) = true then a.2 ++ [k] else a.2)) a).1 ∧
+      (∀ k ∈ (ks.foldl (fun (a : State × List (Int × String)) k =>
+        match a.1.get? k.1 k.2 with
+        | none => a
+        | some z =>
+          let z := z.satisfyMe ⟨p, n, out⟩
+          (a.1.put z, if (z.suicideNow && !a.2.contains k) = true then a.2 ++ [k] else a.2)) a).2, k ≠ (p, n)) := by
+    intro ks; induction ks with
+    | nil => intro _ a ha hg hk; exact ⟨ha, hg, hk⟩
+    | cons k ks ih =>
+      intro hks a ha hg hk
+      simp only [List.foldl_cons]
+      apply ih (fun k' hk' => hks k' (List.mem_cons_of_mem _ hk'))
+      · split
+        · exact ha
+        · rename_i z hz
+          simp only
+          have hzk := get?_some_key hz
+          rw [get?_put_ne]
+          · exact ha
+          · simp only [satisfyMe_pt, satisfyMe_name]
+            intro hcon
+            apply hks k (List.mem_cons_self)
+            rw [← hcon.1, ← hcon.2, hzk.1, hzk.2]
+      · split
+        · exact hg
+        · exact hg
+      · split
+        · exact hk
+        · simp only
+          split
+          · intro k' hk'
+            rcases List.mem_append.mp hk' with h1 | h1
+            · exact hk k' h1
+            · simp only [List.mem_singleton] at h1
+              rw [h1]; exact hks k (List.mem_cons_self)
+          · exact hk
+  split
+  · exact ⟨h0, g0, hs⟩
+  · rename_i y _
+    apply hfold
+    · -- the targets are not the parent
+      intro k hk
+      by_cases habs : c.isAbs = true
+      · have hcn : c.name ≠ n := fun e => by have := (hc e).2; rw [habs] at this; exact absurd this (by decide)
+        simp only [habs, if_true] at hk
+        have hgen : ∀ (pl : List Proxy) (k : Int × String),
+            k ∈ (if ((pl.filter fun z => z.name == c.name).map fun z => (z.pt, z.name)).contains (c.pt, c.name) = true
+              then (pl.filter fun z => z.name == c.name).map fun z => (z.pt, z.name)
+              else ((pl.filter fun z => z.name == c.name).map fun z => (z.pt, z.name)) ++ [(c.pt, c.name)]) →
+            k.2 = c.name := by
+          intro pl k hk
+          have hm : ∀ k, k ∈ ((pl.filter fun z => z.name == c.name).map fun z => (z.pt, z.name)) → k.2 = c.name := by
+            intro k hk
+            obtain ⟨z, hz, rfl⟩ := List.mem_map.mp hk
+            have := (List.mem_filter.mp hz).2
+            simpa using this
+          split at hk
+          · exact hm k hk
+          · rcases List.mem_append.mp hk with h1 | h1
+            · exact hm k h1
+            · simp only [List.mem_singleton] at h1; rw [h1]
+        have hname : k.2 = c.name := hgen _ k hk
+        intro e; rw [e] at hname; exact hcn hname.symm
+      · simp only [habs, Bool.false_eq_true, if_false, List.mem_singleton] at hk
+        rw [hk]
+        intro e
+        simp only [Prod.mk.injEq] at e
+        exact (hc e.2).1 e.1
+    · simp only
+      split
+      · exact h0
+      · exact get?_add_some _ _ _ _ _ h0
+    · simp only
+      split
+      · exact g0
+      · unfold NoG; rw [ghosts_add]; exact g0
+    · exact hs
+
+theorem get?_remove_self (g : Graph) (s : State) (x : Proxy) : (remove g s x).get? x.pt x.name = none := by
+  unfold remove State.get?
+  simp only
+  rw [List.find?_eq_none]
+  intro y hy
+  have := (List.mem_filter.mp hy).2
+  simp only [Bool.not_eq_true', Bool.and_eq_false_iff, beq_eq_false_iff_ne] at this
+  simp only [Bool.and_eq_true, beq_iff_eq, not_and]
+  intro h1 h2
+  rcases this with h | h
+  · exact h h1
+  · exact h h2
+
+theorem ghosts_remove (g : Graph) (s : State) (x : Proxy) : (remove g s x).ghosts = s.ghosts ++ [x] := by
+  unfold remove
+  simp only
+  split
+  · rw [ghosts_spawnNextParentless]
+  · rfl
+
+theorem wf_child (g : Graph) (hwf : noSelfChild g = true) (x : Proxy) (out : String) (c : Child)
+    (hc : c ∈ childrenOf g x out) : c.name = x.name → (c.pt ≠ x.pt ∧ c.isAbs = false) := by
+  unfold childrenOf at hc
+  cases ht : g.task? x.name with
+  | none => simp [ht] at hc
+  | some t =>
+    cases hi : t.inst? x.pt with
+    | none => simp [ht, hi] at hc
+    | some d =>
+      simp only [ht, hi, Option.bind_some] at hc
+      cases hf : d.children.find? (·.1 == out) with
+      | none => simp [hf] at hc
+      | some oc =>
+        obtain ⟨o, cs⟩ := oc
+        simp only [hf] at hc
+        -- membership facts
+        have htm : t ∈ g.tasks := List.mem_of_find?_eq_some ht
+        have htn : t.name = x.name := by
+          have := List.find?_some ht; simpa using this
+        unfold TaskDefn.inst? at hi
+        cases hfi : t.insts.find? (·.1 == x.pt) with
+        | none => simp [hfi] at hi
+        | some pd =>
+          simp only [hfi, Option.map_some, Option.some.injEq] at hi
+          have hpdm : pd ∈ t.insts := List.mem_of_find?_eq_some hfi
+          have hpd1 : pd.1 = x.pt := by have := List.find?_some hfi; simpa using this
+          have hocm : (o, cs) ∈ d.children := List.mem_of_find?_eq_some hf
+          unfold noSelfChild at hwf
+          have h1 := List.all_eq_true.mp hwf t htm
+          have h2 := List.all_eq_true.mp h1 pd hpdm
+          rw [hi] at h2
+          have h3 := List.all_eq_true.mp h2 (o, cs) hocm
+          have h4 := List.all_eq_true.mp h3 c hc
+          intro hcn
+          have : (c.name == t.name) = true := by rw [htn, hcn]; simp
+          simp only [this, Bool.not_true, Bool.false_or, Bool.and_eq_true, bne_iff_ne, ne_eq, Bool.not_eq_true'] at h4
+          exact ⟨by rw [← hpd1]; exact h4.1, h4.2⟩
+
+theorem spawnOnOutput_lookup (g : Graph) (hwf : noSelfChild g = true) (s : State) (p : Int) (n out : String)
+    (x : Proxy) (h : s.get? p n = some x) (hng : NoG p n s) :
+    lookup (spawnOnOutput g s p n out) p n =
+      some ((afterSpawn (g.task? n) ⟨x, false⟩).x, (afterSpawn (g.task? n) ⟨x, false⟩).tr) ∧
+    GhostOK (spawnOnOutput g s p n out) p n := by
+  have hk := get?_some_key h
+  unfold spawnOnOutput
+  simp only [h]
+  -- the children
+  have hcs : ∀ c ∈ (if x.flows.isEmpty = true then [] else childrenOf g x out),
+      c.name = n → (c.pt ≠ p ∧ c.isAbs = false) := by
+    intro c hc
+    split at hc
+    · simp at hc
+    · have := wf_child g hwf x out c hc
+      rw [hk.1, hk.2] at this; exact this
+  generalize (if x.flows.isEmpty = true then [] else childrenOf g x out) = cs at hcs
+  have h1 : ∀ (cs : List Child), (∀ c ∈ cs, c.name = n → (c.pt ≠ p ∧ c.isAbs = false)) →
+      ∀ (acc : State × List (Int × String)), acc.1.get? p n = some x → NoG p n acc.1 → (∀ k ∈ acc.2, k ≠ (p, n)) →
+      (cs.foldl (spawnChild g p n out) acc).1.get? p n = some x ∧ NoG p n (cs.foldl (spawnChild g p n out) acc).1 ∧
+      (∀ k ∈ (cs.foldl (spawnChild g p n out) acc).2, k ≠ (p, n)) := by
+    intro cs; induction cs with
+    | nil => intro _ acc a b c; exact ⟨a, b, c⟩
+    | cons c cs ih =>
+      intro hcs acc a b d
+      simp only [List.foldl_cons]
+      obtain ⟨a', b', d'⟩ := spawnChild_keep g p n out x acc c (hcs c List.mem_cons_self) a b d
+      exact ih (fun c' hc' => hcs c' (List.mem_cons_of_mem _ hc')) _ a' b' d'
+  have h2 : ∀ (ks : List (Int × String)), (∀ k ∈ ks, k ≠ (p, n)) → ∀ (st : State), st.get? p n = some x → NoG p n st →
+      (ks.foldl (fun (st : State) k => match st.get? k.1 k.2 with
+        | some z => remove g st z
+        | none => st) st).get? p n = some x ∧
+      NoG p n (ks.foldl (fun (st : State) k => match st.get? k.1 k.2 with
+        | some z => remove g st z
+        | none => st) st) := by
+    intro ks; induction ks with
+    | nil => intro _ st a b; exact ⟨a, b⟩
+    | cons k ks ih =>
+      intro hks st a b
+      simp only [List.foldl_cons]
+      apply ih (fun k' hk' => hks k' (List.mem_cons_of_mem _ hk'))
+      · split
+        · rename_i z hz
+          have hzk := get?_some_key hz
+          exact (remove_keep g st p n x z a (by
+            intro hcon; apply hks k List.mem_cons_self
+            rw [← hcon.1, ← hcon.2, hzk.1, hzk.2]) b).1
+        · exact a
+      · split
+        · rename_i z hz
+          have hzk := get?_some_key hz
+          exact (remove_keep g st p n x z a (by
+            intro hcon; apply hks k List.mem_cons_self
+            rw [← hcon.1, ← hcon.2, hzk.1, hzk.2]) b).2
+        · exact b
+  obtain ⟨a1, b1, d1⟩ := h1 cs hcs (s, []) h hng (by intro k hk; simp at hk)
+  generalize hR : List.foldl (spawnChild g p n out) (s, []) cs = R at a1 b1 d1
+  obtain ⟨a2, b2⟩ := h2 R.2 d1 R.1 a1 b1
+  generalize hS : (List.foldl (fun (st : State) k => match st.get? k.1 k.2 with
+        | some z => remove g st z
+        | none => st) R.1 R.2) = S at a2 b2
+  simp only [a2]
+  -- remove_if_complete on the proxy itself
+  unfold removeIfComplete afterSpawn Msg.complete
+  simp only [Bool.false_eq_true, if_false, hk.2]
+  have hlive : lookup S p n = some (x, false) ∧ GhostOK S p n := by
+    refine ⟨by unfold lookup; rw [a2], fun _ => b2⟩
+  by_cases hfin : x.status.isFinal = true
+  · simp only [hfin, Bool.not_true, Bool.false_eq_true, if_false, Bool.true_and]
+    cases ht : g.task? n with
+    | none => simpa using hlive
+    | some t =>
+      simp only
+      by_cases hcomp : isComplete t x.done = true
+      · simp only [hcomp, if_true]
+        -- removed: the ghost is found
+        have hnone : (remove g S x).get? p n = none := by
+          have := get?_remove_self g S x; rw [hk.1, hk.2] at this; exact this
+        constructor
+        · unfold lookup
+          rw [hnone]
+          simp only [ghosts_remove, List.find?_append]
+          have : S.ghosts.find? (fun z => z.pt == p && z.name == n) = none := by
+            rw [List.find?_eq_none]; intro y hy; simpa using b2 y hy
+          rw [this]
+          simp [hk.1, hk.2]
+        · intro hsome; rw [hnone] at hsome; simp at hsome
+      · simp only [hcomp, Bool.false_eq_true, if_false]
+        exact hlive
+  · simp only [hfin, Bool.not_false, if_true, Bool.false_and, Bool.false_eq_true, if_false]
+    exact hlive
+
+theorem spawnChildren_lookup (g : Graph) (hwf : noSelfChild g = true) (s : State) (p : Int) (n out : String)
+    (x : Proxy) (tr : Bool) (h : lookup s p n = some (x, tr)) (hgo : GhostOK s p n) :
+    lookup (spawnChildren g s p n out tr) p n =
+      some ((afterSpawn (g.task? n) ⟨x, tr⟩).x, (afterSpawn (g.task? n) ⟨x, tr⟩).tr) ∧
+    GhostOK (spawnChildren g s p n out tr) p n := by
+  rcases lookup_cases h with ⟨rfl, hg⟩ | ⟨rfl, hg, hf⟩
+  · unfold spawnChildren
+    simp only [Bool.false_eq_true, if_false]
+    exact spawnOnOutput_lookup g hwf s p n out x hg (hgo (by rw [hg]; rfl))
+  · unfold spawnChildren afterSpawn
+    simp only [if_true]
+    exact ⟨h, hgo⟩
+
+theorem setComplete_eq (g : Graph) (x : Proxy) (n msg : String) (hn : x.name = n) :
+    setComplete g x msg = Msg.setDone (g.task? n) x msg := by
+  subst hn
+  unfold setComplete Msg.setDone hasOutput Msg.hasOut
+  rfl
+
+/-- the simulation relation: the state's live proxy (or transient object) for (p, n) is `ps` -/
+def Sim (p : Int) (n : String) (s : State) (ps : PS) : Prop :=
+  lookup s p n = some (ps.x, ps.tr) ∧ GhostOK s p n
+
+theorem sim_store (p : Int) (n : String) (s : State) (ps : PS) (y : Proxy) (h : Sim p n s ps)
+    (hp : y.pt = p) (hn : y.name = n) : Sim p n (store s y ps.tr) { ps with x := y } :=
+  ⟨lookup_store s p n ps.x y ps.tr h.1 hp hn, ghostOK_store s p n ps.x y ps.tr h.1 h.2⟩
+
+theorem sim_spawn (g : Graph) (hwf : noSelfChild g = true) (p : Int) (n out : String) (s : State) (ps : PS)
+    (h : Sim p n s ps) : Sim p n (spawnChildren g s p n out ps.tr) (afterSpawn (g.task? n) ps) :=
+  spawnChildren_lookup g hwf s p n out ps.x ps.tr h.1 h.2
+end CylcModel.Sched
+
+namespace CylcModel.Sched
+open CylcModel.Msg
+
+theorem pre_key (ot : Option TaskDefn) (x : Proxy) (msg : String) :
+    (Msg.pre ot x msg).1.pt = x.pt ∧ (Msg.pre ot x msg).1.name = x.name := by
+  unfold Msg.pre; split
+  · exact ⟨rfl, rfl⟩
+  · exact ⟨setDone_pt .., setDone_name ..⟩
+
+theorem pm_sim (g : Graph) (hwf : noSelfChild g = true) (p : Int) (n : String) :
+    ∀ (fuel : Nat) (s : State) (ps : PS) (flag : Flag) (sn : Nat) (msg : String), Sim p n s ps →
+      Sim p n (processMessage g fuel s p n flag sn msg).1 (Msg.step (g.task? n) fuel ps flag sn msg).1 ∧
+      (processMessage g fuel s p n flag sn msg).2 = (Msg.step (g.task? n) fuel ps flag sn msg).2 := by
+  intro fuel; induction fuel with
+  | zero => intro s ps flag sn msg h; unfold processMessage Msg.step; exact ⟨h, rfl⟩
+  | succ fuel ih =>
+    intro s ps flag sn msg h
+    have hk := lookup_key h.1
+    unfold processMessage
+    rw [Msg.step]
+    simp only [h.1]
+    unfold Msg.dropped
+    by_cases g1 : (!ps.tr && flag == Flag.received && sn != ps.x.submitNum) = true
+    · simp only [g1, if_true, Bool.true_or]; exact ⟨h, by first | rfl | trivial⟩
+    · by_cases g2 : (!ps.tr && ps.x.status == Status.waiting && decide (ps.x.submitNum > 0) &&
+                  (decide (ps.x.subTry > 0) || decide (ps.x.execTry > 0))) = true
+      · simp only [g1, g2, if_true, Bool.or_true]; exact ⟨h, by first | rfl | trivial⟩
+      · simp only [g1, g2, Bool.false_eq_true, if_false, Bool.or_self]
+        have e0 : (if (msg == "submit-failed" || msg == "failed") = true then (ps.x, some false)
+            else setComplete g ps.x msg) = Msg.pre (g.task? n) ps.x msg := by
+          unfold Msg.pre; rw [setComplete_eq g ps.x n msg hk.2]
+        rw [e0]
+        have hpk := pre_key (g.task? n) ps.x msg
+        have h1 : Sim p n (store s (Msg.pre (g.task? n) ps.x msg).1 ps.tr) { ps with x := (Msg.pre (g.task? n) ps.x msg).1 } :=
+          sim_store p n s ps _ h (hpk.1.trans hk.1) (hpk.2.trans hk.2)
+        have hfold : ∀ (l : List String) (st : State) (q : PS), Sim p n st q →
+            Sim p n (l.foldl (fun st m => (processMessage g fuel st p n Flag.internal sn m).1) st)
+              (l.foldl (fun st m => (Msg.step (g.task? n) fuel st Flag.internal sn m).1) q) := by
+          intro l; induction l with
+          | nil => intro st q hq; exact hq
+          | cons a l ihl => intro st q hq; exact ihl _ _ (ih st q _ _ a hq).1
+        generalize hSF : List.foldl (fun st m => (processMessage g fuel st p n Flag.internal sn m).1) _ _ = SF
+        have h2 : Sim p n SF (List.foldl (fun st m => (Msg.step (g.task? n) fuel st Flag.internal sn m).1)
+            { ps with x := (Msg.pre (g.task? n) ps.x msg).1 } (Msg.implied (Msg.pre (g.task? n) ps.x msg).1 msg)) := by
+          rw [← hSF]; exact hfold _ _ _ h1
+        generalize List.foldl (fun st m => (Msg.step (g.task? n) fuel st Flag.internal sn m).1)
+            { ps with x := (Msg.pre (g.task? n) ps.x msg).1 } (Msg.implied (Msg.pre (g.task? n) ps.x msg).1 msg) = ps2 at h2 ⊢
+        simp only [h2.1]
+        have hk2 := lookup_key h2.1
+        have hst : ∀ (y : Proxy), y.pt = ps2.x.pt → y.name = ps2.x.name →
+            Sim p n (store SF y ps2.tr) { ps2 with x := y } :=
+          fun y a b => sim_store p n SF ps2 y h2 (a.trans hk2.1) (b.trans hk2.2)
+        have hsp : ∀ (out : String) (y : Proxy), y.pt = ps2.x.pt → y.name = ps2.x.name →
+            Sim p n (spawnChildren g (store SF y ps2.tr) p n out ps2.tr) (afterSpawn (g.task? n) { ps2 with x := y }) :=
+          fun out y a b => sim_spawn g hwf p n out _ { ps2 with x := y } (hst y a b)
+        unfold Msg.finish
+        by_cases m1 : (msg == "started") = true
+        · simp only [m1, if_true]
+          unfold Msg.finStarted
+          by_cases c1 : (flag == Flag.received && decide (ps2.x.status.rank > Status.running.rank)) = true
+          · simp only [c1, if_true]; exact ⟨h2, by first | rfl | trivial⟩
+          · simp only [c1, Bool.false_eq_true, if_false]
+            exact ⟨hsp "started" _ (reset_pt ..) (reset_name ..), by first | rfl | trivial⟩
+        · simp only [m1, Bool.false_eq_true, if_false]
+          by_cases m2 : (msg == "succeeded") = true
+          · simp only [m2, if_true]
+            unfold Msg.finSucceeded
+            exact ⟨hsp "succeeded" _ (reset_pt ..) (reset_name ..), by first | rfl | trivial⟩
+          · simp only [m2, Bool.false_eq_true, if_false]
+            by_cases m3 : (msg == "failed") = true
+            · simp only [m3, if_true]
+              unfold Msg.finFailed Msg.execMax
+              by_cases c1 : (flag == Flag.received && decide (ps2.x.status.rank > Status.failed.rank)) = true
+              · simp only [c1, if_true]; exact ⟨h2, by first | rfl | trivial⟩
+              · simp only [c1, Bool.false_eq_true, if_false]
+                by_cases c2 : (decide (ps2.x.submitNum > 0) && decide (ps2.x.execTry < Msg.execMax (g.task? n))) = true
+                · unfold Msg.execMax at c2
+                  have : Sim p n (store SF { (ps2.x.reset (status := some .waiting)) with
+                      execTry := ps2.x.execTry + 1, retryWait := true } ps2.tr) _ :=
+                    hst _ (reset_pt ..) (reset_name ..)
+                  cases ht : g.task? n <;> rw [ht] at c2 <;> simp only [] at c2 ⊢ <;> simp only [c2, if_true] <;>
+                    exact ⟨this, by first | rfl | trivial⟩
+                · unfold Msg.execMax at c2
+                  have e : (if (ps2.x.status != Status.failed) = true then
+                        setComplete g (ps2.x.reset (some Status.failed)) "failed"
+                      else (ps2.x.reset (some Status.failed), none)).1 =
+                      (if (ps2.x.status != Status.failed) = true then
+                        (Msg.setDone (g.task? n) (ps2.x.reset (some Status.failed)) "failed").1
+                      else ps2.x.reset (some Status.failed)) := by
+                    split
+                    · rw [setComplete_eq g _ n "failed" ((reset_name ..).trans hk2.2)]
+                    · rfl
+                  rw [e]
+                  have hyk : (if (ps2.x.status != Status.failed) = true then
+                        (Msg.setDone (g.task? n) (ps2.x.reset (some Status.failed)) "failed").1
+                      else ps2.x.reset (some Status.failed)).pt = ps2.x.pt ∧
+                      (if (ps2.x.status != Status.failed) = true then
+                        (Msg.setDone (g.task? n) (ps2.x.reset (some Status.failed)) "failed").1
+                      else ps2.x.reset (some Status.failed)).name = ps2.x.name := by
+                    constructor <;> split <;> simp [setDone_pt, setDone_name, reset_pt, reset_name]
+                  generalize (if (ps2.x.status != Status.failed) = true then
+                        (Msg.setDone (g.task? n) (ps2.x.reset (some Status.failed)) "failed").1
+                      else ps2.x.reset (some Status.failed)) = y at hyk ⊢
+                  have := hsp "failed" y hyk.1 hyk.2
+                  revert this
+                  cases ht : g.task? n <;> rw [ht] at c2 <;> simp only [] at c2 ⊢ <;>
+                    simp only [c2, Bool.false_eq_true, if_false] <;> intro this <;>
+                    exact ⟨this, by first | rfl | trivial⟩
+            · simp only [m3, Bool.false_eq_true, if_false]
+              by_cases m4 : (msg == "submit-failed") = true
+              · simp only [m4, if_true]
+                unfold Msg.finSubFailed Msg.subMax
+                by_cases c1 : (flag == Flag.received && decide (ps2.x.status.rank > Status.submitFailed.rank)) = true
+                · simp only [c1, if_true]; exact ⟨h2, by first | rfl | trivial⟩
+                · simp only [c1, Bool.false_eq_true, if_false]
+                  by_cases c2 : (decide (ps2.x.submitNum > 0) && decide (ps2.x.subTry < Msg.subMax (g.task? n))) = true
+                  · unfold Msg.subMax at c2
+                    have : Sim p n (store SF { (ps2.x.reset (status := some .waiting)) with
+                        subTry := ps2.x.subTry + 1, retryWait := true } ps2.tr) _ :=
+                      hst _ (reset_pt ..) (reset_name ..)
+                    cases ht : g.task? n <;> rw [ht] at c2 <;> simp only [] at c2 ⊢ <;> simp only [c2, if_true] <;>
+                      exact ⟨this, by first | rfl | trivial⟩
+                  · unfold Msg.subMax at c2
+                    have e : (if (ps2.x.status != Status.submitFailed) = true then
+                          setComplete g (ps2.x.reset (some Status.submitFailed)) "submit-failed"
+                        else (ps2.x.reset (some Status.submitFailed), none)).1 =
+                        (if (ps2.x.status != Status.submitFailed) = true then
+                          (Msg.setDone (g.task? n) (ps2.x.reset (some Status.submitFailed)) "submit-failed").1
+                        else ps2.x.reset (some Status.submitFailed)) := by
+                      split
+                      · rw [setComplete_eq g _ n "submit-failed" ((reset_name ..).trans hk2.2)]
+                      · rfl
+                    rw [e]
+                    have hyk : (if (ps2.x.status != Status.submitFailed) = true then
+                          (Msg.setDone (g.task? n) (ps2.x.reset (some Status.submitFailed)) "submit-failed").1
+                        else ps2.x.reset (some Status.submitFailed)).pt = ps2.x.pt ∧
+                        (if (ps2.x.status != Status.submitFailed) = true then
+                          (Msg.setDone (g.task? n) (ps2.x.reset (some Status.submitFailed)) "submit-failed").1
+                        else ps2.x.reset (some Status.submitFailed)).name = ps2.x.name := by
+                      constructor <;> split <;> simp [setDone_pt, setDone_name, reset_pt, reset_name]
+                    generalize (if (ps2.x.status != Status.submitFailed) = true then
+                          (Msg.setDone (g.task? n) (ps2.x.reset (some Status.submitFailed)) "submit-failed").1
+                        else ps2.x.reset (some Status.submitFailed)) = y at hyk ⊢
+                    have := hsp "submit-failed" y hyk.1 hyk.2
+                    revert this
+                    cases ht : g.task? n <;> rw [ht] at c2 <;> simp only [] at c2 ⊢ <;>
+                      simp only [c2, Bool.false_eq_true, if_false] <;> intro this <;>
+                      exact ⟨this, by first | rfl | trivial⟩
+              · simp only [m4, Bool.false_eq_true, if_false]
+                by_cases m5 : (msg == "submitted") = true
+                · simp only [m5, if_true]
+                  unfold Msg.finSubmitted
+                  by_cases c1 : (flag == Flag.received && decide (ps2.x.status.rank ≥ Status.submitted.rank)) = true
+                  · simp only [c1, if_true]; exact ⟨h2, by first | rfl | trivial⟩
+                  · simp only [c1, Bool.false_eq_true, if_false]
+                    refine ⟨?_, by first | rfl | trivial⟩
+                    by_cases c2 : (ps2.x.status == Status.preparing) = true
+                    · simp only [c2, if_true]
+                      exact hsp "submitted" _ (by simp [reset_pt]) (by simp [reset_name])
+                    · simp only [c2, Bool.false_eq_true, if_false]
+                      exact sim_spawn g hwf p n "submitted" SF ps2 h2
+                · simp only [m5, Bool.false_eq_true, if_false]
+                  by_cases c1 : ((Msg.pre (g.task? n) ps.x msg).2 == some true) = true
+                  · simp only [c1, if_true]
+                    exact ⟨sim_spawn g hwf p n msg SF ps2 h2, by first | rfl | trivial⟩
+                  · simp only [c1, Bool.false_eq_true, if_false]
+                    exact ⟨h2, by first | rfl | trivial⟩
+end CylcModel.Sched
+
+namespace CylcModel.Sched
+open CylcModel.Msg
+
+/-! ### Part C: completed outputs are never un-completed, in any run of `Sched` -/
+
+/-- the DB record of the latest removal of (p, n), as `spawn_task` reads it -/
+def lastHist (s : State) (p : Int) (n : String) : Option Hist :=
+  (s.hist.filter fun h => h.pt == p && h.name == n).getLast?
+
+/-- the completed outputs on record for the instance (p, n): of its pooled proxy, else of its latest DB
+record (a later respawn starts from these), else none -/
+def recDone (s : State) (p : Int) (n : String) : List String :=
+  match s.get? p n with
+  | some x => x.done
+  | none => match lastHist s p n with
+    | some h => h.done
+    | none => []
+
+/-- every output on record in `s` is on record in `s'`, for every task instance -/
+structure Mono (s s' : State) : Prop where
+  le : ∀ p n m, m ∈ recDone s p n → m ∈ recDone s' p n
+
+theorem Mono.refl (s : State) : Mono s s := ⟨fun _ _ _ h => h⟩
+theorem Mono.trans {a b c : State} (h1 : Mono a b) (h2 : Mono b c) : Mono a c :=
+  ⟨fun p n m h => h2.le p n m (h1.le p n m h)⟩
+
+theorem mono_of_eq (s s' : State) (hp : s'.pool = s.pool) (hh : s'.hist = s.hist) : Mono s s' := by
+  constructor
+  intro p n m h
+  unfold recDone lastHist State.get? at *
+  rw [hp, hh]; exact h
+
+theorem mono_foldl {α : Type} (f : State → α → State) (h : ∀ s a, Mono s (f s a)) :
+    ∀ (l : List α) (s : State), Mono s (l.foldl f s) := by
+  intro l; induction l with
+  | nil => intro s; exact Mono.refl _
+  | cons a l ih => intro s; exact Mono.trans (h s a) (ih _)
+
+/-- replacing a pooled proxy by one with at least its outputs -/
+theorem mono_put (s : State) (y : Proxy)
+    (h : ∀ x, s.get? y.pt y.name = some x → ∀ m, m ∈ x.done → m ∈ y.done) : Mono s (s.put y) := by
+  constructor
+  intro p n m hm
+  unfold recDone at *
+  by_cases hk : y.pt = p ∧ y.name = n
+  · cases hg : s.get? p n with
+    | some x =>
+      rw [get?_put_same s p n x y hg hk.1 hk.2]
+      simp only [hg] at hm
+      exact h x (by rw [hk.1, hk.2]; exact hg) m hm
+    | none =>
+      rw [get?_put_none s p n y hg]
+      simp only [hg] at hm
+      exact hm
+  · rw [get?_put_ne s p n y hk]
+    exact hm
+
+theorem get?_add_other (s : State) (y : Proxy) (p : Int) (n : String) (h : ¬ (y.pt = p ∧ y.name = n)) :
+    (s.add y).get? p n = s.get? p n := by
+  unfold State.add
+  split
+  · rfl
+  · unfold State.get?
+    simp only [List.find?_append]
+    have : [y].find? (fun x => x.pt == p && x.name == n) = none := by
+      simp only [List.find?_cons, List.find?_nil]
+      have : (y.pt == p && y.name == n) = false := by
+        simp only [Bool.and_eq_false_iff, beq_eq_false_iff_ne]
+        by_cases hp : y.pt = p
+        · right; intro hn; exact h ⟨hp, hn⟩
+        · left; exact hp
+      simp [this]
+    rw [this]; simp
+
+theorem get?_add_new (s : State) (y : Proxy) (h : s.get? y.pt y.name = none) :
+    (s.add y).get? y.pt y.name = some y := by
+  unfold State.add
+  simp only [h, Option.isSome_none, Bool.false_eq_true, if_false]
+  unfold State.get? at *
+  simp only [List.find?_append, h, Option.none_or]
+  simp
+
+/-- adding a proxy that carries at least the outputs of the DB record of its instance -/
+theorem mono_add (s : State) (y : Proxy)
+    (h : s.get? y.pt y.name = none → ∀ m, m ∈ recDone s y.pt y.name → m ∈ y.done) : Mono s (s.add y) := by
+  constructor
+  intro p n m hm
+  by_cases hk : y.pt = p ∧ y.name = n
+  · obtain ⟨rfl, rfl⟩ := hk
+    cases hg : s.get? y.pt y.name with
+    | some x =>
+      have : s.add y = s := by unfold State.add; simp [hg]
+      rw [this]; exact hm
+    | none =>
+      unfold recDone
+      rw [get?_add_new s y hg]
+      exact h hg m hm
+  · unfold recDone at *
+    rw [get?_add_other s y p n hk]
+    have : (s.add y).hist = s.hist := by unfold State.add; split <;> rfl
+    unfold lastHist at *
+    rw [this]; exact hm
+
+theorem foldl_satisfyMe_fields (l : List Atom) (y : Proxy) :
+    (l.foldl (fun z a => z.satisfyMe a) y).pt = y.pt ∧ (l.foldl (fun z a => z.satisfyMe a) y).name = y.name ∧
+    (l.foldl (fun z a => z.satisfyMe a) y).done = y.done := by
+  induction l generalizing y with
+  | nil => exact ⟨rfl, rfl, rfl⟩
+  | cons a l ih =>
+    simp only [List.foldl_cons]
+    obtain ⟨h1, h2, h3⟩ := ih (y.satisfyMe a)
+    exact ⟨h1, h2, h3⟩
+
+theorem mkProxy_key (g : Graph) (nm : String) (q : Int) (x : Proxy) (h : mkProxy g nm q = some x) :
+    x.pt = q ∧ x.name = nm ∧ x.done = [] := by
+  unfold mkProxy at h
+  cases ht : g.task? nm with
+  | none => simp [ht] at h
+  | some t =>
+    simp only [ht, Option.bind_eq_bind, Option.bind_some] at h
+    split at h
+    · simp at h
+    · cases hi : t.inst? q with
+      | none => simp [hi] at h
+      | some d =>
+        simp only [hi, Option.bind_some, Option.pure_def, Option.some.injEq] at h
+        subst h
+        exact ⟨rfl, rfl, rfl⟩
+
+/-- the absolute-trigger fix-up at the end of `spawn_task` -/
+def absFix (g : Graph) (s : State) (nm : String) (y : Proxy) : Proxy :=
+  match g.task? nm with
+  | some t => if t.hasAbs && !y.prereqsSatisfied then s.absDone.foldl (fun z a => z.satisfyMe a) y else y
+  | none => y
+
+theorem absFix_fields (g : Graph) (s : State) (nm : String) (y : Proxy) :
+    (absFix g s nm y).pt = y.pt ∧ (absFix g s nm y).name = y.name ∧ (absFix g s nm y).done = y.done := by
+  unfold absFix
+  split
+  · split
+    · exact foldl_satisfyMe_fields s.absDone y
+    · exact ⟨rfl, rfl, rfl⟩
+  · exact ⟨rfl, rfl, rfl⟩
+
+/-- the DB-history part of `spawn_task` -/
+def revive (g : Graph) (nm : String) (x : Proxy) (hist : Option Hist) : Option Proxy :=
+  match hist with
+  | none => some x
+  | some h =>
+    if h.done.isEmpty then none
+    else
+      let y := { x with status := h.status, submitNum := h.submitNum, done := h.done }
+      if h.status.isFinal then
+        match g.task? nm with
+        | some t => if isComplete t h.done then none else some y
+        | none => none
+      else some y
+
+theorem revive_spec (g : Graph) (nm : String) (x r : Proxy) (hist : Option Hist) (h : revive g nm x hist = some r) :
+    r.pt = x.pt ∧ r.name = x.name ∧
+    (∀ m, m ∈ (match hist with | some h => h.done | none => []) → m ∈ r.done) := by
+  unfold revive at h
+  cases hist with
+  | none =>
+    simp only [Option.some.injEq] at h; subst h
+    exact ⟨rfl, rfl, by intro m hm; simp at hm⟩
+  | some hr =>
+    simp only at h
+    by_cases he : hr.done.isEmpty = true
+    · simp [he] at h
+    · simp only [he, Bool.false_eq_true, if_false] at h
+      have hy : ∀ (o : Option Proxy), o = some r →
+          (o = some { x with status := hr.status, submitNum := hr.submitNum, done := hr.done } ∨ o = none) →
+          r.pt = x.pt ∧ r.name = x.name ∧ (∀ m, m ∈ hr.done → m ∈ r.done) := by
+        intro o ho hc
+        rcases hc with hc | hc
+        · rw [hc] at ho; simp only [Option.some.injEq] at ho; subst ho
+          exact ⟨rfl, rfl, fun m hm => hm⟩
+        · rw [hc] at ho; simp at ho
+      apply hy _ h
+      split
+      · split
+        · split
+          · right; rfl
+          · left; rfl
+        · right; rfl
+      · left; rfl
+
+theorem spawnTask_eq (g : Graph) (s : State) (nm : String) (q : Int) :
+    spawnTask g s nm q =
+      if (lastHist s q nm).isNone && q < g.start then none
+      else match mkProxy g nm q with
+        | none => none
+        | some x => (revive g nm x (lastHist s q nm)).map (absFix g s nm) := by
+  unfold spawnTask revive absFix lastHist
+  rfl
+
+/-- `spawn_task`: the new proxy is the instance asked for and carries the outputs of its latest DB record -/
+theorem spawnTask_spec (g : Graph) (s : State) (nm : String) (q : Int) (y : Proxy)
+    (h : spawnTask g s nm q = some y) :
+    y.pt = q ∧ y.name = nm ∧
+    (∀ m, m ∈ (match lastHist s q nm with | some h => h.done | none => []) → m ∈ y.done) := by
+  rw [spawnTask_eq] at h
+  by_cases hc : ((lastHist s q nm).isNone && decide (q < g.start)) = true
+  · simp [hc] at h
+  · simp only [hc, Bool.false_eq_true, if_false] at h
+    cases hm : mkProxy g nm q with
+    | none => simp [hm] at h
+    | some x =>
+      obtain ⟨hx1, hx2, _⟩ := mkProxy_key g nm q x hm
+      simp only [hm] at h
+      cases hr : revive g nm x (lastHist s q nm) with
+      | none => simp [hr] at h
+      | some r =>
+        simp only [hr, Option.map_some, Option.some.injEq] at h
+        obtain ⟨r1, r2, r3⟩ := revive_spec g nm x r _ hr
+        obtain ⟨f1, f2, f3⟩ := absFix_fields g s nm r
+        subst h
+        exact ⟨f1.trans (r1.trans hx1), f2.trans (r2.trans hx2), by rw [f3]; exact r3⟩
+
+theorem recDone_absent (s : State) (p : Int) (n : String) (h : s.get? p n = none) :
+    recDone s p n = (match lastHist s p n with | some h => h.done | none => []) := by
+  unfold recDone; rw [h]
+
+theorem mono_spawnAndAdd (g : Graph) (s : State) (nm : String) (q : Int) : Mono s (spawnAndAdd g s nm q) := by
+  unfold spawnAndAdd
+  split
+  · exact Mono.refl _
+  · split
+    · rename_i x hx
+      obtain ⟨h1, h2, h3⟩ := spawnTask_spec g s nm q x hx
+      apply mono_add
+      intro hg m hm
+      rw [h1, h2] at hg hm
+      rw [recDone_absent s q nm hg] at hm
+      exact h3 m hm
+    · exact Mono.refl _
+
+theorem mono_spawnNextParentless (g : Graph) (s : State) (x : Proxy) : Mono s (spawnNextParentless g s x) := by
+  unfold spawnNextParentless
+  split
+  · exact Mono.refl _
+  · split
+    · exact mono_spawnAndAdd _ _ _ _
+    · exact Mono.refl _
+
+theorem getLast?_filter_append_ne (l : List Hist) (h : Hist) (f : Hist → Bool) (hf : f h = false) :
+    ((l ++ [h]).filter f).getLast? = (l.filter f).getLast? := by
+  simp [List.filter_append, hf]
+
+theorem getLast?_filter_append_eq (l : List Hist) (h : Hist) (f : Hist → Bool) (hf : f h = true) :
+    ((l ++ [h]).filter f).getLast? = some h := by
+  simp [List.filter_append, hf]
+
+/-- the state `remove` starts from: the next parentless instance may be spawned first -/
+def preRemove (g : Graph) (s : State) (x : Proxy) : State :=
+  if !x.flows.isEmpty && x.runahead then spawnNextParentless g s x else s
+
+theorem remove_hist (g : Graph) (s : State) (x : Proxy) :
+    (remove g s x).hist = (preRemove g s x).hist ++ [⟨x.pt, x.name, x.status, x.submitNum, x.done⟩] := by
+  unfold remove preRemove; rfl
+
+theorem remove_get?_other (g : Graph) (s : State) (x : Proxy) (p : Int) (n : String) (hk : ¬ (x.pt = p ∧ x.name = n)) :
+    (remove g s x).get? p n = (preRemove g s x).get? p n := by
+  unfold remove preRemove State.get?
+  simp only
+  apply find?_filter_keep
+  intro a ha
+  simp only [Bool.and_eq_true, beq_iff_eq] at ha
+  simp only [Bool.not_eq_true', Bool.and_eq_false_iff, beq_eq_false_iff_ne]
+  by_cases hp : a.pt = x.pt
+  · right; intro hn; exact hk ⟨by rw [← hp]; exact ha.1, by rw [← hn]; exact ha.2⟩
+  · left; exact hp
+
+/-- removing the pooled proxy `x` of its instance: the DB record takes over its outputs -/
+theorem mono_remove (g : Graph) (s : State) (x : Proxy) (hx : s.get? x.pt x.name = some x) :
+    Mono s (remove g s x) := by
+  have h1 : Mono s (preRemove g s x) := by
+    unfold preRemove; split
+    · exact mono_spawnNextParentless _ _ _
+    · exact Mono.refl _
+  have h2 : (preRemove g s x).get? x.pt x.name = some x := by
+    unfold preRemove; split
+    · exact get?_spawnNextParentless_some g s x.pt x.name x x hx
+    · exact hx
+  apply Mono.trans h1
+  constructor
+  intro p n m hm
+  by_cases hk : x.pt = p ∧ x.name = n
+  · obtain ⟨rfl, rfl⟩ := hk
+    unfold recDone at hm ⊢
+    rw [h2] at hm
+    rw [get?_remove_self]
+    unfold lastHist
+    rw [remove_hist, getLast?_filter_append_eq _ _ _ (by simp)]
+    exact hm
+  · unfold recDone at hm ⊢
+    rw [remove_get?_other g s x p n hk]
+    have hlast : lastHist (remove g s x) p n = lastHist (preRemove g s x) p n := by
+      unfold lastHist
+      rw [remove_hist]
+      apply getLast?_filter_append_ne
+      simp only [Bool.and_eq_false_iff, beq_eq_false_iff_ne]
+      by_cases hp : x.pt = p
+      · right; intro hn; exact hk ⟨hp, hn⟩
+      · left; exact hp
+    rw [hlast]
+    exact hm
+
+theorem mono_removeIfComplete (g : Graph) (s : State) (x : Proxy) (hx : s.get? x.pt x.name = some x) :
+    Mono s (removeIfComplete g s x) := by
+  unfold removeIfComplete
+  split
+  · exact Mono.refl _
+  · split
+    · exact Mono.refl _
+    · split
+      · exact mono_remove g s x hx
+      · exact Mono.refl _
+
+theorem mono_spawnChild (g : Graph) (p : Int) (n out : String) (acc : State × List (Int × String)) (c : Child) :
+    Mono acc.1 (spawnChild g p n out acc c).1 := by
+  obtain ⟨st, sui⟩ := acc
+  unfold spawnChild
+  simp only
+  have h0 : Mono st (if (c.isAbs && !st.absDone.contains ⟨p, n, out⟩) = true then
+      { st with absDone := st.absDone ++ [⟨p, n, out⟩] } else st) := by
+    split
+    · exact mono_of_eq _ _ rfl rfl
+    · exact Mono.refl _
+  -- spawn_task reads pool-independent data: the same result in the state with the recorded absolute output
+  have hsp : ∀ (st0 : State), st0.hist = st.hist → st0.pool = st.pool → True := fun _ _ _ => trivial
+  generalize hst0 : (if (c.isAbs && !st.absDone.contains ⟨p, n, out⟩) = true then
+      { st with absDone := st.absDone ++ [⟨p, n, out⟩] } else st) = st0 at h0 ⊢
+  apply Mono.trans h0
+  have hfold : ∀ (ks : List (Int × String)) (a : State × List (Int × String)),
+      Mono a.1 (ks.foldl (fun (a : State × List (Int × String)) k =>
+        match a.1.get? k.1 k.2 with
+        | none => a
+        | some z =>
+          let z := z.satisfyMe ⟨p, n, out⟩
+          (a.1.put z, if (z.suicideNow && !a.2.contains k) = true then a.2 ++ [k] else a.2)) a).1 := by
+    intro ks; induction ks with
+    | nil => intro a; exact Mono.refl _
+    | cons k ks ih =>
+      intro a
+      simp only [List.foldl_cons]
+      refine Mono.trans ?_ (ih _)
+      split
+      · exact Mono.refl _
+      · rename_i z hz
+        simp only
+        have hzk := get?_some_key hz
+        apply mono_put
+        intro x hx m hm
+        simp only [satisfyMe_pt, satisfyMe_name, hzk.1, hzk.2] at hx
+        rw [hz] at hx
+        simp only [Option.some.injEq] at hx
+        subst hx
+        exact hm
+  split
+  · exact Mono.refl _
+  · rename_i y hy
+    refine Mono.trans ?_ (hfold _ _)
+    simp only
+    split
+    · exact Mono.refl _
+    · rename_i hin
+      -- the child was not pooled: it comes from spawn_task
+      have hnone : st0.get? c.pt c.name = none := by
+        cases hg : st0.get? c.pt c.name with
+        | none => rfl
+        | some v => simp [hg] at hin
+      rw [hnone] at hy
+      simp only at hy
+      obtain ⟨h1, h2, h3⟩ := spawnTask_spec g st0 c.name c.pt y hy
+      apply mono_add
+      intro hg m hm
+      simp only [satisfyMe_pt, satisfyMe_name, h1, h2] at hg hm
+      rw [recDone_absent st0 c.pt c.name hg] at hm
+      exact h3 m hm
+
+theorem mono_spawnOnOutput (g : Graph) (s : State) (p : Int) (n out : String) : Mono s (spawnOnOutput g s p n out) := by
+  unfold spawnOnOutput
+  split
+  · exact Mono.refl _
+  · simp only
+    have h1 : ∀ (cs : List Child) (acc : State × List (Int × String)),
+        Mono acc.1 (cs.foldl (spawnChild g p n out) acc).1 := by
+      intro cs; induction cs with
+      | nil => intro acc; exact Mono.refl _
+      | cons c cs ih => intro acc; exact Mono.trans (mono_spawnChild g p n out acc c) (ih _)
+    have h2 : ∀ (ks : List (Int × String)) (st : State),
+        Mono st (ks.foldl (fun (st : State) k => match st.get? k.1 k.2 with
+          | some z => remove g st z
+          | none => st) st) := by
+      intro ks; induction ks with
+      | nil => intro st; exact Mono.refl _
+      | cons k ks ih =>
+        intro st
+        simp only [List.foldl_cons]
+        refine Mono.trans ?_ (ih _)
+        split
+        · rename_i z hz
+          have hzk := get?_some_key hz
+          exact mono_remove g st z (by rw [hzk.1, hzk.2]; exact hz)
+        · exact Mono.refl _
+    generalize hR : (List.foldl (spawnChild g p n out) (s, []) _) = R
+    have hRm : Mono s R.1 := by rw [← hR]; exact h1 _ (s, [])
+    have h3 := h2 R.2 R.1
+    generalize (List.foldl (fun (st : State) k => match st.get? k.1 k.2 with
+          | some z => remove g st z
+          | none => st) R.1 R.2) = S at h3 ⊢
+    refine Mono.trans hRm (Mono.trans h3 ?_)
+    split
+    · rename_i x' hx'
+      have hk := get?_some_key hx'
+      exact mono_removeIfComplete g S x' (by rw [hk.1, hk.2]; exact hx')
+    · exact Mono.refl _
+
+theorem mono_spawnChildren (g : Graph) (s : State) (p : Int) (n out : String) (tr : Bool) :
+    Mono s (spawnChildren g s p n out tr) := by
+  unfold spawnChildren; split
+  · exact Mono.refl _
+  · exact mono_spawnOnOutput _ _ _ _ _
+
+/-- storing an updated copy of the looked-up proxy that has at least its outputs -/
+theorem mono_store (s : State) (p : Int) (n : String) (x y : Proxy) (tr : Bool)
+    (h : lookup s p n = some (x, tr)) (hp : y.pt = p) (hn : y.name = n) (hd : ∀ m, m ∈ x.done → m ∈ y.done) :
+    Mono s (store s y tr) := by
+  rcases lookup_cases h with ⟨rfl, hg⟩ | ⟨rfl, _, _⟩
+  · unfold store
+    simp only [Bool.false_eq_true, if_false]
+    apply mono_put
+    intro x0 hx0 m hm
+    rw [hp, hn, hg] at hx0
+    simp only [Option.some.injEq] at hx0
+    subst hx0
+    exact hd m hm
+  · unfold store
+    simp only [if_true]
+    exact mono_of_eq _ _ rfl rfl
+
+theorem setComplete_fields (g : Graph) (x : Proxy) (m : String) :
+    (setComplete g x m).1.pt = x.pt ∧ (setComplete g x m).1.name = x.name ∧
+    (∀ a, a ∈ x.done → a ∈ (setComplete g x m).1.done) := by
+  unfold setComplete
+  split
+  · exact ⟨rfl, rfl, fun _ h => h⟩
+  · split
+    · exact ⟨rfl, rfl, fun _ h => h⟩
+    · exact ⟨rfl, rfl, fun a h => by simp [h]⟩
+
+theorem mono_processMessage (g : Graph) : ∀ (fuel : Nat) (s : State) (p : Int) (n : String) (flag : Flag)
+    (sn : Nat) (msg : String), Mono s (processMessage g fuel s p n flag sn msg).1 := by
+  intro fuel
+  induction fuel with
+  | zero => intro s p n flag sn msg; unfold processMessage; exact Mono.refl _
+  | succ fuel ih =>
+    intro s p n flag sn msg
+    unfold processMessage
+    split
+    · exact Mono.refl _
+    · rename_i x tr hl
+      have hk := lookup_key hl
+      split
+      · exact Mono.refl _
+      · split
+        · exact Mono.refl _
+        · simp only
+          have hst1 : Mono s (store s (if (msg == "submit-failed" || msg == "failed") = true then (x, some false)
+              else setComplete g x msg).1 tr) := by
+            apply mono_store s p n x _ tr hl
+            · split
+              · exact hk.1
+              · exact (setComplete_fields g x msg).1.trans hk.1
+            · split
+              · exact hk.2
+              · exact (setComplete_fields g x msg).2.1.trans hk.2
+            · split
+              · exact fun _ h => h
+              · exact (setComplete_fields g x msg).2.2
+          have himp : ∀ (l : List String) (st : State),
+              Mono st (l.foldl (fun st m => (processMessage g fuel st p n .internal sn m).1) st) := by
+            intro l; induction l with
+            | nil => intro st; exact Mono.refl _
+            | cons a l ihl => intro st; exact Mono.trans (ih _ _ _ _ _ _) (ihl _)
+          generalize hS : (List.foldl (fun st m => (processMessage g fuel st p n Flag.internal sn m).1) _ _) = S
+          have hSm : Mono s S := by rw [← hS]; exact Mono.trans hst1 (himp _ _)
+          split
+          · exact hSm
+          · rename_i x2 tr2 hl2
+            have hk2 := lookup_key hl2
+            have hstore : ∀ (y : Proxy), y.pt = x2.pt → y.name = x2.name → (∀ m, m ∈ x2.done → m ∈ y.done) →
+                Mono s (store S y tr2) :=
+              fun y a b c => Mono.trans hSm (mono_store S p n x2 y tr2 hl2 (a.trans hk2.1) (b.trans hk2.2) c)
+            have hsp : ∀ (out : String) (y : Proxy), y.pt = x2.pt → y.name = x2.name →
+                (∀ m, m ∈ x2.done → m ∈ y.done) → Mono s (spawnChildren g (store S y tr2) p n out tr2) :=
+              fun out y a b c => Mono.trans (hstore y a b c) (mono_spawnChildren _ _ _ _ _ _)
+            have hsc : ∀ (out : String) (st : Status) (w : String),
+                Mono s (spawnChildren g (store S (setComplete g (x2.reset (some st)) w).1 tr2) p n out tr2) := by
+              intro out st w
+              obtain ⟨a, b, c⟩ := setComplete_fields g (x2.reset (some st)) w
+              exact hsp out _ (a.trans (reset_pt ..)) (b.trans (reset_name ..))
+                (fun m hm => c m (by rw [reset_done]; exact hm))
+            have hrs : ∀ (st : Option Status) (q r : Option Bool), (∀ m, m ∈ x2.done → m ∈ (x2.reset st q r).done) :=
+              fun st q r m hm => by rw [reset_done]; exact hm
+            repeat' split
+            all_goals try (exact hSm)
+            all_goals try (exact Mono.trans hSm (mono_spawnChildren _ _ _ _ _ _))
+            all_goals try (simp only [])
+            all_goals first
+              | (refine hsp _ _ ?_ ?_ ?_ <;> first
+                  | exact ((setComplete_fields g _ _).1.trans (reset_pt ..))
+                  | exact ((setComplete_fields g _ _).2.1.trans (reset_name ..))
+                  | exact fun m hm => (setComplete_fields g _ _).2.2 m (by rw [reset_done]; exact hm)
+                  | (simp only [reset_pt, reset_name]; done)
+                  | exact fun m hm => (by simpa only [reset_done] using hm))
+              | (refine hstore _ ?_ ?_ ?_ <;> first
+                  | (simp only [reset_pt, reset_name]; done)
+                  | exact fun m hm => (by simpa only [reset_done] using hm))
+
+theorem mono_processQueue (g : Graph) (s : State) : Mono s (processQueue g s) := by
+  unfold processQueue
+  refine Mono.trans (mono_of_eq s { s with queue := [] } rfl rfl) ?_
+  apply mono_foldl
+  intro st grp
+  simp only
+  split
+  · exact Mono.refl _
+  · have : ∀ (l : List Msg) (acc : State × Bool),
+        Mono acc.1 (l.foldl (fun (acc : State × Bool) m =>
+          let (st', pl) := processMessage g 4 acc.1 grp.1.1 grp.1.2 .received m.submitNum m.text
+          (st', acc.2 || pl)) acc).1 := by
+      intro l; induction l with
+      | nil => intro acc; exact Mono.refl _
+      | cons m l ihl =>
+        intro acc
+        exact Mono.trans (mono_processMessage g 4 acc.1 grp.1.1 grp.1.2 .received m.submitNum m.text)
+          (ihl ((processMessage g 4 acc.1 grp.1.1 grp.1.2 .received m.submitNum m.text).1,
+            acc.2 || (processMessage g 4 acc.1 grp.1.1 grp.1.2 .received m.submitNum m.text).2))
+    have h2 := this grp.2 (st, false)
+    split
+    · exact Mono.trans h2 (mono_of_eq _ _ rfl rfl)
+    · exact h2
+
+theorem hist_computeRunahead (g : Graph) (s : State) (f : Bool) : (computeRunahead g s f).hist = s.hist := by
+  unfold computeRunahead
+  simp only
+  split
+  · rfl
+  · split <;> rfl
+
+theorem mono_computeRunahead (g : Graph) (s : State) (f : Bool) : Mono s (computeRunahead g s f) :=
+  mono_of_eq _ _ (pool_computeRunahead g s f) (hist_computeRunahead g s f)
+
+theorem mono_put_fresh (s : State) (y z : Proxy) (h : s.get? y.pt y.name = some y)
+    (hp : z.pt = y.pt) (hn : z.name = y.name) (hd : ∀ m, m ∈ y.done → m ∈ z.done) : Mono s (s.put z) := by
+  apply mono_put
+  intro x hx m hm
+  rw [hp, hn, h] at hx
+  simp only [Option.some.injEq] at hx
+  subst hx
+  exact hd m hm
+
+theorem mono_releaseRunahead (g : Graph) (s : State) : Mono s (releaseRunahead g s).1 := by
+  unfold releaseRunahead
+  split
+  · exact Mono.refl _
+  · split
+    · exact Mono.refl _
+    · simp only
+      apply mono_foldl
+      intro st x
+      refine Mono.trans ?_ (mono_spawnNextParentless g _ x)
+      split
+      · rename_i y hy
+        have hk := get?_some_key hy
+        exact mono_put_fresh st y _ (by rw [hk.1, hk.2]; exact hy) (reset_pt ..) (reset_name ..)
+          (fun m hm => by rw [reset_done]; exact hm)
+      · exact Mono.refl _
+
+theorem mono_releaseRunaheadN (g : Graph) : ∀ (n : Nat) (s : State), Mono s (releaseRunaheadN g n s) := by
+  intro n; induction n with
+  | zero => intro s; exact Mono.refl _
+  | succ n ih =>
+    intro s
+    unfold releaseRunaheadN
+    simp only
+    split
+    · exact Mono.trans (mono_releaseRunahead g s) (ih _)
+    · exact mono_releaseRunahead g s
+
+/-- `queue_if_ready` on the pooled proxy itself -/
+theorem mono_queueIfReady (s : State) (x : Proxy) (h : s.get? x.pt x.name = some x) : Mono s (queueIfReady s x) := by
+  unfold queueIfReady; split
+  · exact mono_put_fresh s x _ h (reset_pt ..) (reset_name ..) (fun m hm => by rw [reset_done]; exact hm)
+  · exact Mono.refl _
+
+theorem mono_sweepQueue (s : State) : Mono s (sweepQueue s) := by
+  unfold sweepQueue
+  apply mono_foldl
+  intro st x
+  split
+  · rename_i y hy
+    have hk := get?_some_key hy
+    have hy' : st.get? y.pt y.name = some y := by rw [hk.1, hk.2]; exact hy
+    split
+    · have h1 : Mono st (st.put { y with retryWait := false }) :=
+        mono_put_fresh st y _ hy' rfl rfl (fun m hm => hm)
+      refine Mono.trans h1 ?_
+      apply mono_queueIfReady
+      exact get?_put_same st y.pt y.name y _ hy' rfl rfl
+    · exact Mono.refl _
+  · exact Mono.refl _
+
+theorem mono_checkStalled (g : Graph) (s : State) : Mono s (checkStalled g s) := by
+  unfold checkStalled; split
+  · exact Mono.refl _
+  · split
+    · exact mono_of_eq _ _ rfl rfl
+    · exact Mono.refl _
+
+theorem mono_checkAutoShutdown (g : Graph) (s : State) : Mono s (checkAutoShutdown g s).1 := by
+  unfold checkAutoShutdown
+  simp only
+  split
+  · exact mono_checkStalled _ _
+  · split <;> exact mono_checkStalled _ _
+
+theorem find?_map_key (l : List Proxy) (f : Proxy → Proxy) (p : Int) (n : String)
+    (hf : ∀ x, (f x).pt = x.pt ∧ (f x).name = x.name) :
+    (l.map f).find? (fun x => x.pt == p && x.name == n) = (l.find? (fun x => x.pt == p && x.name == n)).map f := by
+  induction l with
+  | nil => rfl
+  | cons a l ih =>
+    simp only [List.map_cons, List.find?_cons, (hf a).1, (hf a).2]
+    split
+    · rfl
+    · exact ih
+
+/-- a map over the pool that keeps identities and outputs -/
+theorem mono_map (s s' : State) (f : Proxy → Proxy) (hf : ∀ x, (f x).pt = x.pt ∧ (f x).name = x.name)
+    (hd : ∀ x, (f x).done = x.done) (hp : s'.pool = s.pool.map f) (hh : s'.hist = s.hist) : Mono s s' := by
+  constructor
+  intro p n m hm
+  unfold recDone lastHist State.get? at *
+  rw [hp, hh, find?_map_key s.pool f p n hf]
+  cases hg : s.pool.find? (fun x => x.pt == p && x.name == n) with
+  | none => simp only [hg, Option.map_none] at hm ⊢; exact hm
+  | some x => simp only [hg, Option.map_some] at hm ⊢; rw [hd]; exact hm
+
+theorem mono_finishLoop (g : Graph) (s : State) : Mono s (finishLoop g s) := by
+  unfold finishLoop
+  simp only
+  have h5 : Mono s (if (s.schedUpd || s.pool.any (·.upd)) = true then
+      { s with stalled := false, schedUpd := false, pool := s.pool.map fun x => { x with upd := false } }
+    else s) := by
+    split
+    · exact mono_map _ _ (fun x => { x with upd := false }) (fun _ => ⟨rfl, rfl⟩) (fun _ => rfl) rfl rfl
+    · exact Mono.refl _
+  generalize (if (s.schedUpd || s.pool.any (·.upd)) = true then
+      { s with stalled := false, schedUpd := false, pool := s.pool.map fun x => { x with upd := false } }
+    else s) = s5 at h5 ⊢
+  have h6 : Mono s5 { s5 with db := some s5.pool } := mono_of_eq _ _ rfl rfl
+  split
+  · exact Mono.trans h5 (Mono.trans h6 (mono_checkStalled _ _))
+  · exact Mono.trans h5 h6
+
+theorem key_unique : ∀ (l : List Proxy), (l.map fun x => (x.pt, x.name)).Nodup →
+    ∀ a, a ∈ l → ∀ b, b ∈ l → a.pt = b.pt → a.name = b.name → a = b := by
+  intro l; induction l with
+  | nil => intro _ a ha; simp at ha
+  | cons c l ih =>
+    intro hnd a ha b hb hp hn
+    simp only [List.map_cons, List.nodup_cons] at hnd
+    rcases List.mem_cons.mp ha with rfl | ha' <;> rcases List.mem_cons.mp hb with rfl | hb'
+    · rfl
+    · exfalso; apply hnd.1
+      exact List.mem_map.mpr ⟨b, hb', by rw [hp, hn]⟩
+    · exfalso; apply hnd.1
+      exact List.mem_map.mpr ⟨a, ha', by rw [hp, hn]⟩
+    · exact ih hnd.2 a ha' b hb' hp hn
+
+theorem mono_releaseAndSubmit (s : State) (hnd : NoDup s) : Mono s (releaseAndSubmit s) := by
+  unfold releaseAndSubmit
+  simp only
+  split
+  · exact Mono.refl _
+  · -- through the fold every pooled proxy keeps the outputs of the original proxy of its instance
+    have hfold : ∀ (l : List Proxy), (∀ x ∈ l, x ∈ s.pool) → ∀ (st : State),
+        (Mono s st ∧ ∀ z ∈ st.pool, ∃ z0 ∈ s.pool, z0.pt = z.pt ∧ z0.name = z.name ∧ z.done = z0.done) →
+        (Mono s (l.foldl (fun (st : State) x =>
+          let y := x.reset (queued := some false)
+          let y := { (y.reset (status := some .preparing)) with submitNum := x.submitNum + 1 }
+          { (st.put y) with launched := st.launched ++ [(x.pt, x.name, x.submitNum + 1)] }) st)) := by
+      intro l; induction l with
+      | nil => intro _ st h; exact h.1
+      | cons x l ih =>
+        intro hl st hst
+        simp only [List.foldl_cons]
+        apply ih (fun x' hx' => hl x' (List.mem_cons_of_mem _ hx'))
+        have hxs : x ∈ s.pool := hl x List.mem_cons_self
+        have hy : ∃ y : Proxy, y = ({ ((x.reset (queued := some false)).reset (status := some .preparing)) with
+            submitNum := x.submitNum + 1 } : Proxy) := ⟨_, rfl⟩
+        obtain ⟨y, hy⟩ := hy
+        have hyp : y.pt = x.pt := by rw [hy]; simp [reset_pt]
+        have hyn : y.name = x.name := by rw [hy]; simp [reset_name]
+        have hyd : y.done = x.done := by rw [hy]; simp [reset_done]
+        rw [← hy]
+        constructor
+        · refine Mono.trans hst.1 (Mono.trans (mono_put st y ?_) (mono_of_eq (st.put y) _ rfl rfl))
+          intro x0 hx0 m hm
+          rw [hyp, hyn] at hx0
+          have hx0m : x0 ∈ st.pool := List.mem_of_find?_eq_some hx0
+          have hx0k := get?_some_key hx0
+          obtain ⟨z0, hz0, hp, hn, hd⟩ := hst.2 x0 hx0m
+          have : z0 = x := key_unique s.pool hnd z0 hz0 x hxs (by rw [hp, hx0k.1]) (by rw [hn, hx0k.2])
+          subst this
+          rw [hyd, ← hd]; exact hm
+        · intro z hz
+          simp only [State.put] at hz
+          obtain ⟨w, hw, rfl⟩ := List.mem_map.mp hz
+          split
+          · exact ⟨x, hxs, hyp.symm, hyn.symm, hyd⟩
+          · exact hst.2 w hw
+    have key := hfold (s.pool.filter (·.queued)) (fun x hx => (List.mem_filter.mp hx).1) s
+      ⟨Mono.refl _, fun z hz => ⟨z, hz, rfl, rfl, rfl⟩⟩
+    exact Mono.trans key (mono_of_eq _ _ rfl rfl)
+
+theorem mono_mainLoop (g : Graph) (s : State) (hnd : NoDup s) : Mono s (mainLoop g s) := by
+  unfold mainLoop
+  split
+  · exact Mono.refl _
+  · simp only
+    have n1 := nodup_releaseRunahead g _ (nodup_computeRunahead g s false hnd)
+    have n2 := nodup_checkAutoShutdown g _ n1
+    have m1 : Mono s (releaseRunahead g (computeRunahead g s)).1 :=
+      Mono.trans (mono_computeRunahead g s false) (mono_releaseRunahead g _)
+    have m2 : Mono s (checkAutoShutdown g (releaseRunahead g (computeRunahead g s)).1).1 :=
+      Mono.trans m1 (mono_checkAutoShutdown g _)
+    split
+    · exact Mono.trans m2 (mono_of_eq _ _ rfl rfl)
+    · have n3 := nodup_sweepQueue _ n2
+      exact Mono.trans m2 (Mono.trans (mono_sweepQueue _) (Mono.trans (mono_releaseAndSubmit _ n3)
+        (Mono.trans (mono_processQueue g _) (mono_finishLoop g _))))
+
+/-- **one op of the scheduler never un-completes an output on record** -/
+theorem mono_step (g : Graph) (s : State) (op : Op) (hnd : NoDup s) : Mono s (step g s op) := by
+  unfold step
+  have hc : Mono s (clearOp s) := mono_of_eq _ _ rfl rfl
+  have nc : NoDup (clearOp s) := hnd
+  cases op with
+  | loop => exact Mono.trans hc (mono_mainLoop g _ nc)
+  | subres p n ok sn => exact Mono.trans hc (mono_processMessage g 4 _ _ _ _ _ _)
+  | msg p n sn text => exact Mono.trans hc (mono_of_eq _ _ rfl rfl)
+
+theorem nodup_stepX (g : Graph) (s : State) (op : XOp) (h : NoDup s) : NoDup (stepX g s op) := by
+  cases op with
+  | base op => exact nodup_step g s op h
+  | poll p n sn text =>
+    show NoDup (if pollMatches s p n sn then (processMessage g 4 (clearOp s) p n .polled sn text).1 else clearOp s)
+    split
+    · exact nodup_processMessage g 4 _ _ _ _ _ _ (show NoDup (clearOp s) from h)
+    · exact h
+
+theorem mono_stepX (g : Graph) (s : State) (op : XOp) (hnd : NoDup s) : Mono s (stepX g s op) := by
+  cases op with
+  | base op => exact mono_step g s op hnd
+  | poll p n sn text =>
+    show Mono s (if pollMatches s p n sn then (processMessage g 4 (clearOp s) p n .polled sn text).1 else clearOp s)
+    split
+    · exact Mono.trans (mono_of_eq s (clearOp s) rfl rfl) (mono_processMessage g 4 _ _ _ _ _ _)
+    · exact mono_of_eq s (clearOp s) rfl rfl
+
+/-- every state of an extended run satisfies `P` when the start-up state does and every step preserves it -/
+theorem runX_inv (P : State → Prop) (g : Graph) (h0 : P (init g)) (hs : ∀ s op, P s → P (stepX g s op)) :
+    ∀ ops, ∀ s ∈ runX g ops, P s := by
+  intro ops
+  unfold runX
+  have key : ∀ (ops : List XOp) (acc : List State) (cur : State),
+      (∀ s ∈ acc, P s) → P cur →
+      ∀ s ∈ (ops.foldl (fun (a : List State × State) op =>
+          let s' := stepX g a.2 op; (a.1 ++ [s'], s')) (acc, cur)).1, P s := by
+    intro ops
+    induction ops with
+    | nil => intro acc cur hacc _ s hm; exact hacc s hm
+    | cons op ops ih =>
+      intro acc cur hacc hcur
+      simp only [List.foldl_cons]
+      apply ih
+      · intro s hm
+        rcases List.mem_append.mp hm with h | h
+        · exact hacc s h
+        · simp at h; subst h; exact hs _ _ hcur
+      · exact hs _ _ hcur
+  exact key ops [init g] (init g) (by intro s hm; simp at hm; subst hm; exact h0) h0
+
+theorem nodup_runX (g : Graph) (ops : List XOp) : ∀ s ∈ runX g ops, NoDup s :=
+  runX_inv NoDup g (nodup_loadFromPoint g) (nodup_stepX g) ops
+
+end CylcModel.Sched
